@@ -3,10 +3,13 @@
    T. the universal table: compute_offset / short_bitmap are inverse bijections between the 15-bit
       blocks of a class and the offsets 0 .. C(15,class)-1 (finite check over the 2^15 blocks);
    B. blocks of the plain bit vector and their popcounts vs prefix counts;
-   C. build: representation invariant [rrr_wf], no out-of-bounds access for 1 <= n (and n = 0);
+   C. build: representation invariant [rrr_wf], no out-of-bounds access for 1 <= n < 2^32 (and n = 0);
    Q. access / rank1 / rank0 = the plain definitions (BitRGDefs section A), no out-of-bounds read;
    S. select1 / select0 = the plain definitions, fuel sufficient;
-   R. refutations: the pre-6ffe6c2 allocation of O, the late padding loop, absurd sample rates. *)
+   R. refutations: the pre-6ffe6c2 allocation of O, the late padding loop (incl. divergence),
+      sample rates >= 2^32/15 in select0;
+   then the statements for the table the C++ builds (rrr_E), save/load, and the pointer wavelet
+   tree of BitRGDefs section C over RRR bitmaps. *)
 From LibCSD Require Import Base Bytes LogSeqDefs LogSeqProofs BitRGDefs BitRGProofs Cds32Defs Cds32Proofs RRRDefs.
 Require Import Lia ZifyBool ZifyNat ZifyN.
 Ltac Zify.zify_post_hook ::= Z.to_euclidean_division_equations.
@@ -284,7 +287,7 @@ Proof.
   change (2 ^ 59) with 576460752303423488. lia.
 Qed.
 
-Lemma rrr_block_spec bv k : 1 <= lenN bv -> lenN bv + 14 < 4294967296 -> k < nblocks (lenN bv) ->
+Lemma rrr_block_spec bv k : 1 <= lenN bv -> lenN bv < 4294967296 -> k < nblocks (lenN bv) ->
   rrr_block (words_of_bits bv) (lenN bv) k = Some (blk bv k).
 Proof.
   intros Hn1 Hn Hk. set (n := lenN bv) in *.
@@ -304,3 +307,1510 @@ Proof.
     destruct (N.ltb_spec t (fin + 1 - k * 15)) as [H1|H1]; destruct (N.ltb_spec t 15) as [H2|H2]; cbn [andb]; try reflexivity; try lia.
     symmetry. apply nth_overflow. unfold n, lenN in *. lia.
 Qed.
+
+(* ========================================================================= *)
+(* generic helpers about fields                                                 *)
+(* ========================================================================= *)
+
+Lemma uint_len32_comm a b : a < 4294967296 -> b < 4294967296 -> uint_len32 a b = uint_len32 b a.
+Proof.
+  intros Ha Hb. unfold uint_len32. rewrite (u32_small a), (u32_small b), (u64_small a), (u64_small b) by lia.
+  rewrite (N.mul_comm a b). reflexivity.
+Qed.
+
+Lemma get_field_of_bits A len q v : arr32 A -> len <= 32 -> in_range32 A len q -> v < 2 ^ len ->
+  (forall t, t < len -> wbit32 A (q * len + t) = N.testbit v t) -> get_field32 A len q = Some v.
+Proof.
+  intros HA Hlen Hin Hv Hb. destruct (get_field32_bits A len q HA Hlen Hin) as (v' & Hg & Hbits).
+  rewrite Hg. f_equal. apply N.bits_inj. intros t. rewrite Hbits.
+  destruct (N.ltb_spec t len) as [Ht|Ht]; cbn [andb].
+  - apply Hb. exact Ht.
+  - symmetry. apply (testbit_lt_pow2_false v t len); assumption.
+Qed.
+
+Lemma set_field_inv A fb q0 v : arr32 A -> fb <= 32 -> in_range32 A fb q0 -> v < 2 ^ fb ->
+  exists A', set_field32 A fb q0 v = Some A' /\ arr32 A' /\ lenN A' = lenN A /\
+    (forall q t, t < fb -> wbit32 A' (q * fb + t) = if q =? q0 then N.testbit v t else wbit32 A (q * fb + t)).
+Proof.
+  intros HA Hfb Hin Hv. destruct (set_field32_bits A fb q0 v HA Hfb Hin Hv) as (A' & Hs & HA' & Hl & Hb).
+  exists A'. split; [exact Hs|]. split; [exact HA'|]. split; [exact Hl|].
+  intros q t Ht. rewrite Hb. destruct (N.eqb_spec q q0) as [->|Hne].
+  - destruct (N.leb_spec (q0 * fb) (q0 * fb + t)); [|lia].
+    destruct (N.ltb_spec (q0 * fb + t) (q0 * fb + fb)); [|lia]. cbn [andb]. f_equal. lia.
+  - assert (Hd : q * fb + t < q0 * fb \/ q0 * fb + fb <= q * fb + t) by nia.
+    destruct (N.leb_spec (q0 * fb) (q * fb + t)); destruct (N.ltb_spec (q * fb + t) (q0 * fb + fb)); cbn [andb]; try reflexivity; lia.
+Qed.
+
+Lemma in_range_of_len fb cnt A q : fb <= 32 -> cnt < 4294967296 -> uint_len32 cnt fb <= lenN A -> q < cnt -> in_range32 A fb q.
+Proof.
+  intros Hfb Hc Hl Hq. unfold in_range32. rewrite uint_len32_comm in Hl by lia.
+  destruct (uint_len32_fits fb cnt Hfb Hc) as [H1 _]. nia.
+Qed.
+
+(* the two degenerate var-field calls with ini = 0, fin = (uint)-1 (an empty field at bit 0 whose
+   end was computed in uint): both touch word 0 *)
+Lemma set_var_field32_wrapped A : words32 A -> 1 <= lenN A -> set_var_field32 A 0 4294967295 0 = Some A.
+Proof.
+  intros HA Hl. destruct A as [|a A']; [unfold lenN in Hl; cbn in Hl; lia|].
+  assert (Ha : a < 4294967296) by (inversion HA; assumption).
+  unfold set_var_field32, set_var_field32_gen. cbv zeta.
+  change (c32_u32 0) with 0. change (0 =? c32_u64 (4294967295 + 1)) with false. cbv iota.
+  change (c32_u32 (0 / 32)) with 0. change (c32_u32 (0 * 32)) with 0.
+  change (c32_u32 (c32_subw c32_u64 0 0)) with 0.
+  change (c32_u32 (c32_u64 (c32_subw c32_u64 4294967295 0 + 1))) with 0.
+  unfold wr_core32. cbv zeta. change (c32_u32 (0 + 0)) with 0. change (0 <? 32) with true. cbv iota.
+  change (c32_subw c32_u32 32 0) with 32. change (32 <? 32) with false. change (32 <? 0) with false. cbv iota.
+  change (shl32 ones32 0) with 4294967295. change (shl32 0 0) with 0.
+  unfold c32_rd, rdN. rewrite lenN_cons. destruct (N.ltb_spec 0 (1 + lenN A')); [|lia].
+  change (nthN (a :: A') 0) with (Some a). rewrite N.lor_0_r, N.lor_0_r.
+  change 4294967295 with (N.ones 32). rewrite N.land_ones. rewrite N.mod_small by exact Ha. reflexivity.
+Qed.
+
+Lemma get_var_field32_wrapped A : 1 <= lenN A -> exists v, get_var_field32 A 0 4294967295 = Some v.
+Proof.
+  intros Hl. destruct A as [|a A']; [unfold lenN in Hl; cbn in Hl; lia|].
+  unfold get_var_field32, get_var_field32_gen. cbv zeta.
+  change (0 =? c32_u64 (4294967295 + 1)) with false. cbv iota.
+  change (0 / 32) with 0. change (c32_subw c32_u64 0 (32 * 0)) with 0.
+  change (c32_u32 (c32_u64 (c32_subw c32_u64 4294967295 0 + 1))) with 0.
+  unfold rd_core32. change (c32_u64 (0 + 0) <=? 32) with true. cbv iota.
+  unfold c32_rd, rdN. rewrite lenN_cons. destruct (N.ltb_spec 0 (1 + lenN A')); [|lia].
+  change (nthN (a :: A') 0) with (Some a). eexists. reflexivity.
+Qed.
+
+Lemma rrr_range_length cnt s : length (rrr_range cnt s) = cnt.
+Proof. revert s. induction cnt as [|c IH]; intros s; cbn [rrr_range length]; [reflexivity|]. rewrite IH. reflexivity. Qed.
+
+Lemma rrr_range_nth : forall cnt s q, (q < cnt)%nat -> nth_error (rrr_range cnt s) q = Some (s + N.of_nat q).
+Proof.
+  induction cnt as [|c IH]; intros s q Hq; [lia|]. cbn [rrr_range]. destruct q as [|q]; cbn [nth_error].
+  - f_equal. lia.
+  - rewrite IH by lia. f_equal. lia.
+Qed.
+
+Section Blocks.
+Variable bv : list bool.
+Let n := lenN bv.
+Let nb := nblocks n.
+
+Definition classes : list N := map (cls bv) (rrr_range (N.to_nat nb) 0).
+
+Lemma classes_len : lenN classes = nb.
+Proof. unfold classes, lenN. rewrite map_length, rrr_range_length. lia. Qed.
+Lemma classes_nth k : k < nb -> nthN classes k = Some (cls bv k).
+Proof.
+  intros Hk. unfold classes, nthN. rewrite nth_error_map, rrr_range_nth by lia. cbn. f_equal. f_equal. lia.
+Qed.
+Lemma classes_bound : Forall (fun v => v < 2 ^ 4) classes.
+Proof.
+  unfold classes. apply Forall_forall. intros x Hx. apply in_map_iff in Hx. destruct Hx as (k & <- & _).
+  pose proof (cls_le bv k). change (2 ^ 4) with 16. lia.
+Qed.
+
+Hypothesis Hn1 : 1 <= n.
+Hypothesis Hn : n < 4294967296.
+
+Lemma nb_bounds : 1 <= nb /\ 15 * (nb - 1) < n /\ n <= 15 * nb /\ nb < 286331154.
+Proof.
+  pose proof (nblocks_spec n) as [H1 H2]. fold nb in H1, H2.
+  destruct (N.eqb_spec n 0); [lia|]. lia.
+Qed.
+
+Lemma C_get k : k < nb -> get_field32 (pack32 4 classes) 4 k = Some (cls bv k).
+Proof.
+  intros Hk. pose proof nb_bounds as Hnb. rewrite pack32_get; [apply classes_nth; exact Hk|lia| |apply classes_bound|].
+  - rewrite classes_len. unfold c32_W. lia.
+  - rewrite classes_len. exact Hk.
+Qed.
+
+End Blocks.
+
+(* ========================================================================= *)
+(* C. build                                                                    *)
+(* ========================================================================= *)
+Section Build.
+Variable E : toff.
+Hypothesis HE : toff_ok E = true.
+Variable bv : list bool.
+Let n := lenN bv.
+Let nb := nblocks n.
+
+Notation lgc k := (lg E (cls bv k)).
+
+(* bit position in O of the offset of block k: sum of the widths of the blocks before it *)
+Fixpoint oposn (k : nat) : N :=
+  match k with O => 0 | S k' => oposn k' + lg E (cls bv (N.of_nat k')) end.
+Definition opos (k : N) : N := oposn (N.to_nat k).
+
+Lemma opos_0 : opos 0 = 0. Proof. reflexivity. Qed.
+Lemma opos_succ k : opos (k + 1) = opos k + lgc k.
+Proof.
+  unfold opos. replace (N.to_nat (k + 1)) with (S (N.to_nat k)) by lia. cbn [oposn]. rewrite N2Nat.id. reflexivity.
+Qed.
+Lemma lgc_le k : lgc k <= 13.
+Proof. apply lg_some; [exact HE|apply cls_le]. Qed.
+Lemma lgc_some k : rrr_log2 E (cls bv k) = Some (lgc k).
+Proof. apply lg_some; [exact HE|apply cls_le]. Qed.
+Lemma opos_le k : opos k <= 13 * k.
+Proof.
+  induction k as [|k IH] using N.peano_ind; [rewrite opos_0; lia|].
+  rewrite <- N.add_1_r, opos_succ. pose proof (lgc_le k). lia.
+Qed.
+Lemma opos_mono a b : a <= b -> opos a <= opos b.
+Proof.
+  intros H. replace b with (a + (b - a)) by lia. generalize (b - a) as m. clear H b.
+  induction m as [|m IH] using N.peano_ind; [rewrite N.add_0_r; lia|].
+  rewrite <- N.add_1_r, N.add_assoc, opos_succ. lia.
+Qed.
+Lemma opos_next_le a b : a < b -> opos a + lgc a <= opos b.
+Proof. intros H. rewrite <- opos_succ. apply opos_mono. lia. Qed.
+
+Hypothesis Hn1 : 1 <= n.
+Hypothesis Hn : n < 4294967296.
+
+(* ---- table C ---- *)
+Lemma build_C_spec : forall cnt i C,
+  i + N.of_nat cnt <= nb ->
+  rrr_build_C E (words_of_bits bv) n 4 cnt i C (pc1 bv (15 * i)) (opos i) =
+    match pack32_fill C 4 i (map (cls bv) (rrr_range cnt i)) with
+    | Some C' => Some (C', pc1 bv (15 * (i + N.of_nat cnt)), opos (i + N.of_nat cnt))
+    | None => None
+    end.
+Proof.
+  pose proof (nb_bounds bv Hn1 Hn) as Hnb; fold n in Hnb; fold nb in Hnb.
+  induction cnt as [|c IH]; intros i C Hi.
+  - cbn [rrr_build_C rrr_range map pack32_fill]. rewrite N.add_0_r. reflexivity.
+  - cbn [rrr_build_C rrr_range map pack32_fill].
+    rewrite rrr_block_spec by (fold n; fold nb; lia). fold (cls bv i).
+    destruct (set_field32 C 4 i (cls bv i)) as [C'|]; [|reflexivity].
+    rewrite lgc_some.
+    pose proof (pc1_le bv (15 * (i + 1))). pose proof (opos_le (i + 1)).
+    rewrite u64_small by (rewrite <- pc1_block; lia). rewrite <- pc1_block.
+    rewrite u32_small by (rewrite <- opos_succ; lia). rewrite <- opos_succ.
+    rewrite IH by lia. replace (i + 1 + N.of_nat c) with (i + N.of_nat (S c)) by lia. reflexivity.
+Qed.
+
+Lemma uint_len_C : uint_len32 nb 4 = uint_len32 4 (lenN (classes bv)).
+Proof. pose proof (nb_bounds bv Hn1 Hn) as Hnb; fold n in Hnb; fold nb in Hnb. rewrite (classes_len bv). fold n. fold nb. apply uint_len32_comm; lia. Qed.
+
+Lemma build_C_ok :
+  rrr_build_C E (words_of_bits bv) n 4 (N.to_nat nb) 0 (repeat 0 (N.to_nat (uint_len32 nb 4))) 0 0 =
+    Some (pack32 4 (classes bv), bv_ones bv, opos nb).
+Proof.
+  pose proof (nb_bounds bv Hn1 Hn) as Hnb; fold n in Hnb; fold nb in Hnb.
+  pose proof (build_C_spec (N.to_nat nb) 0 (repeat 0 (N.to_nat (uint_len32 nb 4))) ltac:(lia)) as H.
+  rewrite N.mul_0_r in H. unfold pc1 at 1 in H. rewrite prefix_count_0, opos_0 in H. rewrite H. clear H.
+  rewrite N.add_0_l, N2Nat.id. change (map (cls bv) (rrr_range (N.to_nat nb) 0)) with (classes bv).
+  rewrite uint_len_C.
+  change (pack32_fill (repeat 0 (N.to_nat (uint_len32 4 (lenN (classes bv))))) 4 0 (classes bv))
+    with (pack32w (uint_len32 4 (lenN (classes bv))) 4 (classes bv)).
+  rewrite pack32_is_pack32w; [|lia|rewrite (classes_len bv); fold n; fold nb; unfold c32_W; lia|apply (classes_bound bv)].
+  f_equal. f_equal. f_equal. apply pc1_total. fold n. lia.
+Qed.
+
+(* ---- table O ---- *)
+Section TableO.
+Variable olen : N.
+Hypothesis Holen1 : 1 <= olen.
+Hypothesis Holen : opos nb <= 32 * olen.
+Hypothesis Holen59 : olen < 2 ^ 59.
+
+Definition O_inv (Ow : list N) (i : N) : Prop :=
+  arr32 Ow /\ lenN Ow = olen /\
+  forall k t, k < i -> t < lgc k -> wbit32 Ow (opos k + t) = N.testbit (offv E (blk bv k)) t.
+
+Lemma build_O_spec : forall cnt i Ow, i + N.of_nat cnt = nb -> O_inv Ow i ->
+  exists Ow', rrr_build_O E (words_of_bits bv) n cnt i Ow (opos i) = Some Ow' /\ O_inv Ow' nb.
+Proof.
+  pose proof (nb_bounds bv Hn1 Hn) as Hnb; fold n in Hnb; fold nb in Hnb.
+  induction cnt as [|c IH]; intros i Ow Hi Hinv.
+  - exists Ow. split; [reflexivity|]. replace nb with i by lia. exact Hinv.
+  - cbn [rrr_build_O]. rewrite rrr_block_spec by (fold n; fold nb; lia).
+    pose proof (blk_lt bv i) as Hb. rewrite u16_small by lia. fold (cls bv i). rewrite lgc_some.
+    destruct (block_ok E HE (blk bv i) Hb) as (Hco & Hoff & _ & _). rewrite Hco. fold (cls bv i) in Hoff.
+    destruct Hinv as (HA & HL & Hbits).
+    pose proof (opos_le (i + 1)) as Hop. rewrite opos_succ in Hop.
+    pose proof (opos_mono (i + 1) nb ltac:(lia)) as Hmono. rewrite opos_succ in Hmono.
+    pose proof (lgc_le i) as Hl13.
+    assert (Hstep : exists Ow1, set_var_field32 Ow (opos i) (rrr_dec32 (opos i + lgc i)) (offv E (blk bv i)) = Some Ow1 /\ O_inv Ow1 (i + 1)).
+    { destruct (N.eq_dec (opos i + lgc i) 0) as [Hz|Hz].
+      - assert (Hp0 : opos i = 0) by lia. assert (Hl0 : lgc i = 0) by lia.
+        rewrite Hz, Hp0, dec32_zero. rewrite Hl0 in Hoff. change (2 ^ 0) with 1 in Hoff.
+        replace (offv E (blk bv i)) with 0 by lia.
+        exists Ow. split; [apply set_var_field32_wrapped; [apply HA|lia]|].
+        split; [exact HA|]. split; [exact HL|]. intros k t Hk Ht.
+        destruct (N.eq_dec k i) as [->|Hne]; [lia|]. apply Hbits; [lia|exact Ht].
+      - rewrite dec32_pos by lia.
+        destruct (set_var_field32_bits Ow (opos i) (opos i + lgc i - 1) (offv E (blk bv i))) as (Ow1 & Hs & HA1 & HL1 & Hb1).
+        + exact HA.
+        + lia.
+        + lia.
+        + rewrite HL. lia.
+        + unfold c32_W. lia.
+        + replace (opos i + lgc i - 1 + 1 - opos i) with (lgc i) by lia. exact Hoff.
+        + exists Ow1. split; [exact Hs|]. split; [exact HA1|]. split; [congruence|].
+          intros k t Hk Ht. rewrite Hb1. destruct (N.eq_dec k i) as [->|Hne].
+          * destruct (N.leb_spec (opos i) (opos i + t)); [|lia].
+            destruct (N.ltb_spec (opos i + t) (opos i + lgc i - 1 + 1)); [|lia]. cbn [andb]. f_equal. lia.
+          * pose proof (opos_next_le k i ltac:(lia)).
+            destruct (N.leb_spec (opos i) (opos k + t)); [lia|]. cbn [andb]. apply Hbits; [lia|exact Ht]. }
+    destruct Hstep as (Ow1 & Hs & Hinv1). rewrite Hs.
+    rewrite u32_small by lia. rewrite <- opos_succ. apply IH; [lia|exact Hinv1].
+Qed.
+
+Lemma build_O_ok : exists Ow,
+  rrr_build_O E (words_of_bits bv) n (N.to_nat nb) 0 (repeat 0 (N.to_nat olen)) 0 = Some Ow /\ O_inv Ow nb.
+Proof.
+  rewrite <- opos_0. apply build_O_spec; [lia|].
+  split; [apply arr32_repeat0; lia|]. split; [rewrite lenN_repeat; lia|]. intros k t Hk. lia.
+Qed.
+End TableO.
+
+(* ---- create_sampling ---- *)
+Section Sampling.
+Variable sr : N.
+Hypothesis Hsr1 : 1 <= sr.
+Hypothesis Hsr : sr < 4294967296.
+
+Let ones := bv_ones bv.
+Let csfb := bits32 ones.
+Let opfb := bits32 (opos nb).
+Let csl := nb / sr + 2.
+Let opl := nb / sr + 1.
+
+Lemma ones_lt : ones < 4294967296.
+Proof. unfold ones, bv_ones. pose proof (countb_le_len true bv). fold n in H. lia. Qed.
+Lemma csfb_le : csfb <= 32.
+Proof. apply bits32_le_32. apply ones_lt. Qed.
+Lemma ones_fits : ones < 2 ^ csfb.
+Proof. apply bits32_spec. apply ones_lt. Qed.
+Lemma oposnb_lt : opos nb < 4294967296.
+Proof. pose proof (opos_le nb). pose proof (nb_bounds bv Hn1 Hn) as Hnb; fold n in Hnb; fold nb in Hnb. lia. Qed.
+Lemma opfb_le : opfb <= 32.
+Proof. apply bits32_le_32. apply oposnb_lt. Qed.
+Lemma oposnb_fits : opos nb < 2 ^ opfb.
+Proof. apply bits32_spec. apply oposnb_lt. Qed.
+
+(* C_sampling[q] = ones before block min(q * sample_rate, C_len) *)
+Definition csval (q : N) : N := pc1 bv (15 * N.min (q * sr) nb).
+Definition opval (q : N) : N := opos (q * sr).
+
+Lemma csval_fits q : csval q < 2 ^ csfb.
+Proof. unfold csval. pose proof (pc1_le_ones bv (15 * N.min (q * sr) nb)). pose proof ones_fits. fold ones in H. lia. Qed.
+
+Definition fld_inv (A : list N) (w fb : N) (P : N -> Prop) (val : N -> N) : Prop :=
+  arr32 A /\ lenN A = w /\ forall q t, P q -> t < fb -> wbit32 A (q * fb + t) = N.testbit (val q) t.
+
+Lemma cs_loop_spec w : uint_len32 csl csfb <= w -> w < 2 ^ 59 ->
+  forall cnt i CS, i + N.of_nat cnt = nb ->
+  fld_inv CS w csfb (fun q => q * sr < i) csval ->
+  exists CS', rrr_cs_loop (pack32 4 (classes bv)) 4 sr csfb cnt i CS (pc1 bv (15 * i)) = Some (CS', ones) /\
+              fld_inv CS' w csfb (fun q => q * sr < nb) csval.
+Proof.
+  intros Hw Hw59. pose proof (nb_bounds bv Hn1 Hn) as Hnb; fold n in Hnb; fold nb in Hnb. pose proof csfb_le as Hfb.
+  induction cnt as [|c IH]; intros i CS Hi Hinv.
+  - exists CS. cbn [rrr_cs_loop]. replace i with nb by lia. split; [|replace nb with i by lia; exact Hinv].
+    f_equal. f_equal. apply pc1_total. fold n. lia.
+  - cbn [rrr_cs_loop]. rewrite (C_get bv Hn1 Hn) by (fold n; fold nb; lia).
+    pose proof (pc1_le bv (15 * (i + 1))) as Hpc.
+    rewrite u32_small by (rewrite <- pc1_block; lia). rewrite <- pc1_block.
+    assert (Hstep : exists CS1, (if i mod sr =? 0 then set_field32 CS csfb (i / sr) (pc1 bv (15 * i)) else Some CS) = Some CS1 /\
+                                fld_inv CS1 w csfb (fun q => q * sr < i + 1) csval).
+    { destruct Hinv as (HA & HL & Hb).
+      destruct (N.eqb_spec (i mod sr) 0) as [Hm|Hm].
+      - assert (Hiq : i / sr * sr = i) by (pose proof (N.div_mod' i sr) as Hd; rewrite Hm in Hd; rewrite N.mul_comm; lia).
+        assert (Hv : pc1 bv (15 * i) = csval (i / sr)).
+        { unfold csval. rewrite Hiq. f_equal. lia. }
+        destruct (set_field_inv CS csfb (i / sr) (pc1 bv (15 * i))) as (CS1 & Hs & HA1 & HL1 & Hb1).
+        + exact HA.
+        + exact Hfb.
+        + apply (in_range_of_len csfb csl); [exact Hfb|unfold csl; lia|rewrite HL; exact Hw|].
+          unfold csl. assert (i / sr <= nb / sr) by (apply N.div_le_mono; lia). lia.
+        + rewrite Hv. apply csval_fits.
+        + exists CS1. split; [exact Hs|]. split; [exact HA1|]. split; [congruence|].
+          intros q t Hq Ht. rewrite Hb1 by exact Ht. destruct (N.eqb_spec q (i / sr)) as [->|Hne].
+          * rewrite Hv. reflexivity.
+          * apply Hb; [|exact Ht]. assert (q * sr <> i) by (intros He; apply Hne; subst i; rewrite N.div_mul; lia). lia.
+      - exists CS. split; [reflexivity|]. split; [exact HA|]. split; [exact HL|].
+        intros q t Hq Ht. apply Hb; [|exact Ht].
+        assert (q * sr <> i) by (intros He; apply Hm; subst i; apply N.mod_mul; lia). lia. }
+    destruct Hstep as (CS1 & Hs & Hinv1). rewrite Hs. apply IH; [lia|exact Hinv1].
+Qed.
+
+Lemma cs_pad_spec w : uint_len32 csl csfb <= w -> w < 2 ^ 59 ->
+  forall cnt j CS, j + N.of_nat cnt = csl -> (forall q, q * sr < nb -> q < j) ->
+  fld_inv CS w csfb (fun q => q < j) csval ->
+  exists CS', rrr_cs_pad csfb cnt j CS ones = Some CS' /\ fld_inv CS' w csfb (fun q => q < csl) csval.
+Proof.
+  intros Hw Hw59. pose proof (nb_bounds bv Hn1 Hn) as Hnb; fold n in Hnb; fold nb in Hnb. pose proof csfb_le as Hfb.
+  induction cnt as [|c IH]; intros j CS Hj Hhi Hinv.
+  - exists CS. split; [reflexivity|]. replace csl with j by lia. exact Hinv.
+  - cbn [rrr_cs_pad]. destruct Hinv as (HA & HL & Hb).
+    assert (Hv : ones = csval j).
+    { unfold csval. assert (~ j * sr < nb) by (intros Hc; apply Hhi in Hc; lia).
+      replace (N.min (j * sr) nb) with nb by lia. unfold ones. symmetry. apply pc1_total. fold n. lia. }
+    destruct (set_field_inv CS csfb j ones) as (CS1 & Hs & HA1 & HL1 & Hb1).
+    + exact HA.
+    + exact Hfb.
+    + apply (in_range_of_len csfb csl); [exact Hfb|unfold csl; lia|rewrite HL; exact Hw|lia].
+    + apply ones_fits.
+    + rewrite Hs. apply IH.
+      * lia.
+      * intros q Hq. specialize (Hhi q Hq). lia.
+      * split; [exact HA1|]. split; [congruence|]. intros q t Hq Ht. rewrite Hb1 by exact Ht.
+        destruct (N.eqb_spec q j) as [->|Hne]; [rewrite Hv; reflexivity|]. apply Hb; [lia|exact Ht].
+Qed.
+Lemma opval_fits q : q * sr < nb -> opval q < 2 ^ opfb.
+Proof. intros Hq. unfold opval. pose proof (opos_mono (q * sr) nb ltac:(lia)). pose proof oposnb_fits. lia. Qed.
+
+Lemma op_loop_spec w : uint_len32 opl opfb <= w -> w < 2 ^ 59 ->
+  forall cnt i OP, i + N.of_nat cnt = nb ->
+  fld_inv OP w opfb (fun q => q * sr < i) opval ->
+  exists OP', rrr_op_loop E (pack32 4 (classes bv)) 4 sr opfb cnt i OP (opos i) = Some OP' /\
+              fld_inv OP' w opfb (fun q => q * sr < nb) opval.
+Proof.
+  intros Hw Hw59. pose proof (nb_bounds bv Hn1 Hn) as Hnb; fold n in Hnb; fold nb in Hnb. pose proof opfb_le as Hfb.
+  induction cnt as [|c IH]; intros i OP Hi Hinv.
+  - exists OP. cbn [rrr_op_loop]. split; [reflexivity|]. replace nb with i by lia. exact Hinv.
+  - cbn [rrr_op_loop]. rewrite (C_get bv Hn1 Hn) by (fold n; fold nb; lia). rewrite lgc_some.
+    pose proof (opos_mono (i + 1) nb ltac:(lia)) as Hmono. pose proof oposnb_lt as Hlt.
+    rewrite u32_small by (rewrite <- opos_succ; lia). rewrite <- opos_succ.
+    assert (Hstep : exists OP1, (if i mod sr =? 0 then set_field32 OP opfb (i / sr) (opos i) else Some OP) = Some OP1 /\
+                                fld_inv OP1 w opfb (fun q => q * sr < i + 1) opval).
+    { destruct Hinv as (HA & HL & Hb).
+      destruct (N.eqb_spec (i mod sr) 0) as [Hm|Hm].
+      - assert (Hiq : i / sr * sr = i) by (pose proof (N.div_mod' i sr) as Hd; rewrite Hm in Hd; rewrite N.mul_comm; lia).
+        assert (Hv : opos i = opval (i / sr)) by (unfold opval; rewrite Hiq; reflexivity).
+        destruct (set_field_inv OP opfb (i / sr) (opos i)) as (OP1 & Hs & HA1 & HL1 & Hb1).
+        + exact HA.
+        + exact Hfb.
+        + apply (in_range_of_len opfb opl); [exact Hfb|unfold opl; lia|rewrite HL; exact Hw|].
+          unfold opl. assert (i / sr <= nb / sr) by (apply N.div_le_mono; lia). lia.
+        + rewrite Hv. apply opval_fits. rewrite Hiq. lia.
+        + exists OP1. split; [exact Hs|]. split; [exact HA1|]. split; [congruence|].
+          intros q t Hq Ht. rewrite Hb1 by exact Ht. destruct (N.eqb_spec q (i / sr)) as [->|Hne].
+          * rewrite Hv. reflexivity.
+          * apply Hb; [|exact Ht]. assert (q * sr <> i) by (intros He; apply Hne; subst i; rewrite N.div_mul; lia). lia.
+      - exists OP. split; [reflexivity|]. split; [exact HA|]. split; [exact HL|].
+        intros q t Hq Ht. apply Hb; [|exact Ht].
+        assert (q * sr <> i) by (intros He; apply Hm; subst i; apply N.mod_mul; lia). lia. }
+    destruct Hstep as (OP1 & Hs & Hinv1). rewrite Hs. apply IH; [lia|exact Hinv1].
+Qed.
+
+Lemma fld_inv_weaken A w fb (P P' : N -> Prop) val : (forall q, P' q -> P q) -> fld_inv A w fb P val -> fld_inv A w fb P' val.
+Proof. intros H (HA & HL & Hb). split; [exact HA|]. split; [exact HL|]. intros q t Hq. apply Hb. apply H. exact Hq. Qed.
+
+Lemma fld_inv_zero w fb P val : w < 2 ^ 59 -> (forall q, ~ P q) -> fld_inv (repeat 0 (N.to_nat w)) w fb P val.
+Proof.
+  intros Hw HP. split; [apply arr32_repeat0; lia|]. split; [rewrite lenN_repeat; lia|]. intros q t Hq. destruct (HP q Hq).
+Qed.
+
+Lemma div_lt_mul q a : q * sr < a -> q <= (a - 1) / sr.
+Proof. intros H. apply N.div_le_lower_bound; lia. Qed.
+Lemma lt_div_mul q a : 1 <= a -> q <= (a - 1) / sr -> q * sr < a.
+Proof. intros Ha H. pose proof (N.mul_div_le (a - 1) sr ltac:(lia)). nia. Qed.
+
+Lemma uint_len_lt a b : a < 4294967296 -> b <= 32 -> uint_len32 a b < 2 ^ 59.
+Proof.
+  intros Ha Hb. rewrite uint_len32_comm by lia. apply uint_len32_fits; [exact Hb|exact Ha].
+Qed.
+
+Lemma create_sampling_ok d0 :
+  r_C d0 = pack32 4 (classes bv) -> r_C_len d0 = nb -> r_C_field_bits d0 = 4 -> r_ones d0 = ones -> r_O_bits_len d0 = opos nb ->
+  exists cs op,
+    rrr_create_sampling E d0 sr =
+      Some (mkRRR (r_length d0) ones (r_C d0) (r_O d0) nb (r_O_len d0) 4 (opos nb) cs op csl opl csfb opfb sr) /\
+    fld_inv cs (N.max 1 (uint_len32 csl csfb)) csfb (fun q => q < csl) csval /\
+    fld_inv op (uint_len32 opl opfb) opfb (fun q => q * sr < nb) opval.
+Proof.
+  intros HC HCl Hcfb Hones Hobl. pose proof (nb_bounds bv Hn1 Hn) as Hnb; fold n in Hnb; fold nb in Hnb. pose proof ones_lt as Hol.
+  assert (Hq : nb / sr <= nb) by (apply N.div_le_upper_bound; nia).
+  unfold rrr_create_sampling, rrr_create_sampling_gen. cbv zeta.
+  destruct (N.eqb_spec sr 0) as [|_]; [lia|].
+  rewrite HC, HCl, Hcfb, Hones, Hobl. rewrite (u32_small ones) by exact Hol. fold csfb. fold opfb.
+  rewrite (u32_small (nb / sr + 2)) by lia. rewrite (u32_small (nb / sr + 1)) by lia. fold csl. fold opl.
+  set (wcs := N.max 1 (uint_len32 csl csfb)).
+  assert (Hwcs : wcs < 2 ^ 59).
+  { pose proof (uint_len_lt csl csfb ltac:(unfold csl; lia) csfb_le). change (2 ^ 59) with 576460752303423488 in *. unfold wcs. lia. }
+  destruct (cs_loop_spec wcs ltac:(unfold wcs; lia) Hwcs (N.to_nat nb) 0 (repeat 0 (N.to_nat wcs)) ltac:(lia)) as (cs1 & Hcs1 & Hinv1).
+  { apply fld_inv_zero; [exact Hwcs|]. intros q. lia. }
+  rewrite N.mul_0_r in Hcs1. unfold pc1 at 1 in Hcs1. rewrite prefix_count_0 in Hcs1. rewrite Hcs1.
+  unfold rrr_pad_start. rewrite dec32_pos by lia. rewrite (u32_small ((nb - 1) / sr + 1)).
+  2:{ assert ((nb - 1) / sr <= nb - 1) by (apply N.div_le_upper_bound; nia). lia. }
+  set (st := (nb - 1) / sr + 1).
+  assert (Hst : st <= csl).
+  { unfold st, csl. assert ((nb - 1) / sr <= nb / sr) by (apply N.div_le_mono; lia). lia. }
+  destruct (cs_pad_spec wcs ltac:(unfold wcs; lia) Hwcs (N.to_nat (csl - st)) st cs1 ltac:(lia)) as (cs & Hcs & Hinv).
+  { intros q Hq'. apply div_lt_mul in Hq'. unfold st. lia. }
+  { apply (fld_inv_weaken _ _ _ (fun q => q * sr < nb)); [|exact Hinv1].
+    intros q Hq'. apply lt_div_mul; [lia|]. unfold st in Hq'. lia. }
+  rewrite Hcs.
+  set (wop := uint_len32 opl opfb).
+  assert (Hwop : wop < 2 ^ 59) by (apply uint_len_lt; [unfold opl; lia|apply opfb_le]).
+  destruct (op_loop_spec wop ltac:(lia) Hwop (N.to_nat nb) 0 (repeat 0 (N.to_nat wop)) ltac:(lia)) as (op & Hop & Hinvo).
+  { apply fld_inv_zero; [exact Hwop|]. intros q. lia. }
+  rewrite opos_0 in Hop. rewrite Hop.
+  exists cs, op. split; [reflexivity|]. split; [exact Hinv|exact Hinvo].
+Qed.
+
+End Sampling.
+
+End Build.
+
+(* ---- the representation invariant the constructor establishes ---- *)
+Record rrr_wf (E : toff) (bv : list bool) (sr : N) (d : rrr) : Prop := {
+  wf_length : r_length d = lenN bv;
+  wf_ones : r_ones d = bv_ones bv;
+  wf_C : r_C d = pack32 4 (classes bv);
+  wf_C_len : r_C_len d = nblocks (lenN bv);
+  wf_cfb : r_C_field_bits d = 4;
+  wf_obl : r_O_bits_len d = opos E bv (nblocks (lenN bv));
+  wf_O : O_inv E bv (r_O_len d) (r_O d) (nblocks (lenN bv));
+  wf_O_len1 : 1 <= r_O_len d;
+  wf_O_len : opos E bv (nblocks (lenN bv)) <= 32 * r_O_len d;
+  wf_csl : r_C_sampling_len d = nblocks (lenN bv) / sr + 2;
+  wf_opl : r_O_pos_len d = nblocks (lenN bv) / sr + 1;
+  wf_csfb : r_C_sampling_field_bits d = bits32 (bv_ones bv);
+  wf_opfb : r_O_pos_field_bits d = bits32 (opos E bv (nblocks (lenN bv)));
+  wf_sr : r_sample_rate d = sr;
+  wf_CS : fld_inv (r_C_sampling d) (N.max 1 (uint_len32 (nblocks (lenN bv) / sr + 2) (bits32 (bv_ones bv))))
+            (bits32 (bv_ones bv)) (fun q => q < nblocks (lenN bv) / sr + 2) (csval bv sr);
+  wf_OP : fld_inv (r_O_pos d) (uint_len32 (nblocks (lenN bv) / sr + 1) (bits32 (opos E bv (nblocks (lenN bv)))))
+            (bits32 (opos E bv (nblocks (lenN bv)))) (fun q => q * sr < nblocks (lenN bv)) (opval E bv sr)
+}.
+
+Theorem rrr_build_wf E bv sr : toff_ok E = true ->
+  1 <= lenN bv -> lenN bv < 4294967296 -> 1 <= sr < 4294967296 ->
+  exists d, rrr_of_bits E bv sr = Some d /\ rrr_wf E bv sr d.
+Proof.
+  intros HE Hn1 Hn [Hsr1 Hsr].
+  pose proof (nb_bounds bv Hn1 Hn) as Hnb.
+  unfold rrr_of_bits, rrr_build, rrr_build_gen. cbv zeta. change rrr_BS with 15. change (bits32 15) with 4.
+  fold (nblocks (lenN bv)). rewrite (u32_small (nblocks (lenN bv))) by lia.
+  rewrite (build_C_ok E HE bv Hn1 Hn).
+  pose proof (opos_le E HE bv (nblocks (lenN bv))) as Hop.
+  assert (Hul : uint_len32 1 (opos E bv (nblocks (lenN bv))) = (opos E bv (nblocks (lenN bv)) + 31) / 32).
+  { rewrite uint_len32_spec by (unfold c32_W; lia). f_equal. lia. }
+  set (olen := N.max 1 (uint_len32 1 (opos E bv (nblocks (lenN bv))))).
+  destruct (build_O_ok E HE bv Hn1 Hn olen) as (Ow & HO & HOinv).
+  { unfold olen. lia. }
+  { unfold olen. rewrite Hul. lia. }
+  { unfold olen. rewrite Hul. change (2 ^ 59) with 576460752303423488. lia. }
+  rewrite HO.
+  destruct (create_sampling_ok E HE bv Hn1 Hn sr Hsr1 Hsr
+              (mkRRR (lenN bv) (bv_ones bv) (pack32 4 (classes bv)) Ow (nblocks (lenN bv)) olen 4 (opos E bv (nblocks (lenN bv))) [] [] 0 0 0 0 0))
+    as (cs & op & Hcs & Hinvc & Hinvo); try reflexivity.
+  fold (rrr_create_sampling E). rewrite Hcs. cbn [r_length r_C r_O r_O_len].
+  eexists. split; [reflexivity|].
+  constructor; cbn [r_length r_ones r_C r_O r_C_len r_O_len r_C_field_bits r_O_bits_len r_C_sampling r_O_pos
+                    r_C_sampling_len r_O_pos_len r_C_sampling_field_bits r_O_pos_field_bits r_sample_rate];
+    try reflexivity; try assumption.
+  - unfold olen. lia.
+  - unfold olen. rewrite Hul. lia.
+Qed.
+
+(* ========================================================================= *)
+(* Q. access / rank                                                            *)
+(* ========================================================================= *)
+
+Lemma get_var_field32_empty A p : p < 18446744073709551616 -> get_var_field32 A p (rrr_dec64 p) = Some 0.
+Proof.
+  intros Hp. unfold get_var_field32, get_var_field32_gen.
+  replace (c32_u64 (rrr_dec64 p + 1)) with p; [rewrite N.eqb_refl; reflexivity|].
+  unfold rrr_dec64, c32_u64, c32_W64. symmetry.
+  destruct (N.eq_dec p 0) as [->|Hne]; [reflexivity|].
+  replace ((p + 18446744073709551616 - 1) mod 18446744073709551616) with (p - 1).
+  - rewrite N.mod_small; lia.
+  - apply (N.mod_unique _ _ 1); lia.
+Qed.
+
+Lemma ones_pow2 m : 2 ^ m - 1 = N.ones m.
+Proof. rewrite N.ones_equiv. rewrite N.sub_1_r. reflexivity. Qed.
+
+Section Query.
+Variable E : toff.
+Hypothesis HE : toff_ok E = true.
+Variable bv : list bool.
+Variable sr : N.
+Variable d : rrr.
+Hypothesis Hwf : rrr_wf E bv sr d.
+Let n := lenN bv.
+Let nb := nblocks n.
+Hypothesis Hn1 : 1 <= n.
+Hypothesis Hn : n < 4294967296.
+Hypothesis Hsr1 : 1 <= sr.
+Hypothesis Hsr : sr < 4294967296.
+
+Notation lgc k := (lg E (cls bv k)).
+Notation opos := (opos E bv).
+
+Lemma q_nb : 1 <= nb /\ 15 * (nb - 1) < n /\ n <= 15 * nb /\ nb < 286331154.
+Proof. apply (nb_bounds bv Hn1 Hn). Qed.
+
+Lemma q_C k : k < nb -> get_field32 (r_C d) (r_C_field_bits d) k = Some (cls bv k).
+Proof. intros Hk. rewrite (wf_C _ _ _ _ Hwf), (wf_cfb _ _ _ _ Hwf). apply (C_get bv Hn1 Hn). exact Hk. Qed.
+
+Lemma q_CS q : q <= nb / sr + 1 ->
+  get_field32 (r_C_sampling d) (r_C_sampling_field_bits d) q = Some (csval bv sr q).
+Proof.
+  intros Hq. rewrite (wf_csfb _ _ _ _ Hwf). destruct (wf_CS _ _ _ _ Hwf) as (HA & HL & Hb).
+  pose proof (csfb_le E bv Hn1 Hn sr Hsr1 Hsr) as Hfb. pose proof q_nb as Hnb.
+  assert (Hq' : nb / sr <= nb) by (apply N.div_le_upper_bound; nia).
+  apply get_field_of_bits.
+  - exact HA.
+  - exact Hfb.
+  - apply (in_range_of_len _ (nb / sr + 2)); [exact Hfb|lia|fold n in HL; fold nb in HL; rewrite HL; apply N.le_max_r|lia].
+  - apply (csval_fits E bv Hn1 Hn sr Hsr1 Hsr).
+  - intros t Ht. apply Hb; [fold n; fold nb; lia|exact Ht].
+Qed.
+
+Lemma q_OP q : q * sr < nb ->
+  get_field32 (r_O_pos d) (r_O_pos_field_bits d) q = Some (opos (q * sr)).
+Proof.
+  intros Hq. rewrite (wf_opfb _ _ _ _ Hwf). destruct (wf_OP _ _ _ _ Hwf) as (HA & HL & Hb).
+  pose proof (opfb_le E HE bv Hn1 Hn sr Hsr1 Hsr) as Hfb. pose proof q_nb as Hnb.
+  assert (Hq' : nb / sr <= nb) by (apply N.div_le_upper_bound; nia).
+  assert (Hq2 : q <= nb / sr) by (apply N.div_le_lower_bound; lia).
+  apply get_field_of_bits.
+  - exact HA.
+  - exact Hfb.
+  - apply (in_range_of_len _ (nb / sr + 1)); [exact Hfb|lia|fold n in HL; fold nb in HL; rewrite HL; apply N.le_refl|lia].
+  - apply (opval_fits E HE bv Hn1 Hn sr Hsr1 Hsr). exact Hq.
+  - intros t Ht. apply Hb; [exact Hq|exact Ht].
+Qed.
+
+Lemma q_O_arr : arr32 (r_O d) /\ 1 <= lenN (r_O d) /\ opos nb <= 32 * lenN (r_O d).
+Proof.
+  destruct (wf_O _ _ _ _ Hwf) as (HA & HL & _). pose proof (wf_O_len1 _ _ _ _ Hwf). pose proof (wf_O_len _ _ _ _ Hwf).
+  rewrite HL. auto.
+Qed.
+
+(* the stored offset of block k *)
+Lemma q_O k : k < nb -> 1 <= lgc k ->
+  get_var_field32 (r_O d) (opos k) (opos k + lgc k - 1) = Some (offv E (blk bv k)).
+Proof.
+  intros Hk Hl. destruct q_O_arr as (HA & HL1 & HL). destruct (wf_O _ _ _ _ Hwf) as (_ & _ & Hb).
+  pose proof (lgc_le E HE bv k) as Hl13.
+  pose proof (opos_next_le E bv k nb Hk) as Hnx. fold n in Hnx.
+  destruct (get_var_field32_bits (r_O d) (opos k) (opos k + lgc k - 1) HA) as (v & Hv & Hbits); try lia.
+  rewrite Hv. f_equal. apply N.bits_inj. intros t. rewrite Hbits.
+  destruct (block_ok E HE (blk bv k) (blk_lt bv k)) as (_ & Hoff & _ & _). fold (cls bv k) in Hoff.
+  destruct (N.ltb_spec t (opos k + lgc k - 1 + 1 - opos k)) as [Ht|Ht]; cbn [andb].
+  - apply Hb; [exact Hk|lia].
+  - symmetry. apply (testbit_lt_pow2_false _ t (lgc k)); [exact Hoff|lia].
+Qed.
+
+Lemma q_sb k : k < nb -> rrr_short_bitmap E (cls bv k) (offv E (blk bv k)) = Some (blk bv k).
+Proof. intros Hk. destruct (block_ok E HE (blk bv k) (blk_lt bv k)) as (_ & _ & _ & H). exact H. Qed.
+
+Lemma offv_zero k : lgc k = 0 -> offv E (blk bv k) = 0.
+Proof.
+  intros Hl. destruct (block_ok E HE (blk bv k) (blk_lt bv k)) as (_ & Hoff & _ & _). fold (cls bv k) in Hoff.
+  rewrite Hl in Hoff. change (2 ^ 0) with 1 in Hoff. lia.
+Qed.
+
+Lemma q_opos_lt k : k <= nb -> opos k < 4294967296.
+Proof. intros Hk. pose proof (opos_le E HE bv k). pose proof q_nb. lia. Qed.
+
+(* the block decoded the way access / select do it (size_t arithmetic) *)
+Lemma decode64 k : k < nb ->
+  exists off, get_var_field32 (r_O d) (opos k) (rrr_dec64 (c32_u64 (opos k + lgc k))) = Some off /\
+              rrr_short_bitmap E (cls bv k) off = Some (blk bv k).
+Proof.
+  intros Hk. pose proof (q_opos_lt k ltac:(lia)) as Hp. pose proof (lgc_le E HE bv k) as Hl13.
+  rewrite u64_small by lia.
+  destruct (N.eq_dec (lgc k) 0) as [Hl|Hl].
+  - rewrite Hl, N.add_0_r. exists 0. split; [apply get_var_field32_empty; lia|].
+    rewrite <- (offv_zero k Hl). apply q_sb. exact Hk.
+  - rewrite dec64_pos by lia. exists (offv E (blk bv k)). split; [apply q_O; [exact Hk|lia]|apply q_sb; exact Hk].
+Qed.
+
+(* ... and the way rank1 does it (the end of the field computed in uint) *)
+Lemma decode32 k : k < nb ->
+  exists off, get_var_field32 (r_O d) (opos k) (rrr_dec32 (opos k + lgc k)) = Some off /\
+              rrr_short_bitmap E (cls bv k) off = Some (blk bv k).
+Proof.
+  intros Hk. pose proof (q_opos_lt k ltac:(lia)) as Hp. pose proof (lgc_le E HE bv k) as Hl13.
+  pose proof (q_opos_lt (k + 1) ltac:(lia)) as Hp1. rewrite opos_succ in Hp1.
+  destruct (N.eq_dec (lgc k) 0) as [Hl|Hl].
+  - rewrite Hl, N.add_0_r. destruct (N.eq_dec (opos k) 0) as [Hz|Hz].
+    + rewrite Hz, dec32_zero. destruct q_O_arr as (_ & HL1 & _).
+      destruct (get_var_field32_wrapped (r_O d) HL1) as (v & Hv). exists v. split; [exact Hv|].
+      rewrite (short_bitmap_uniform E HE (cls bv k) v (offv E (blk bv k)) (cls_le bv k) Hl). apply q_sb. exact Hk.
+    + exists 0. split.
+      * rewrite dec32_pos by lia. rewrite <- (dec64_pos (opos k)) by lia. apply get_var_field32_empty. lia.
+      * rewrite <- (offv_zero k Hl). apply q_sb. exact Hk.
+  - rewrite dec32_pos by lia. exists (offv E (blk bv k)). split; [apply q_O; [exact Hk|lia]|apply q_sb; exact Hk].
+Qed.
+
+(* ---- access ---- *)
+Lemma acc_loop_spec : forall cnt k, k + N.of_nat cnt <= nb ->
+  rrr_acc_loop E d cnt k (opos k) = Some (opos (k + N.of_nat cnt)).
+Proof.
+  induction cnt as [|c IH]; intros k Hk; cbn [rrr_acc_loop].
+  - rewrite N.add_0_r. reflexivity.
+  - rewrite q_C by lia. rewrite (lgc_some E HE).
+    pose proof (q_opos_lt (k + 1) ltac:(lia)) as Hp. rewrite opos_succ in Hp.
+    rewrite u64_small by lia. rewrite <- opos_succ. rewrite IH by lia. f_equal. f_equal. lia.
+Qed.
+
+Lemma idx_bounds i : i < n -> i / 15 < nb /\ i / 15 / sr * sr <= i / 15 /\ i / 15 / sr <= nb / sr.
+Proof.
+  intros Hi. pose proof q_nb as Hnb. assert (H1 : i / 15 < nb) by lia.
+  split; [exact H1|]. split.
+  - rewrite N.mul_comm. apply N.mul_div_le. lia.
+  - apply N.div_le_mono; lia.
+Qed.
+
+Theorem rrr_access_wf i : i < n -> rrr_access E d i = Some (bv_access bv i).
+Proof.
+  intros Hi. pose proof q_nb as Hnb. destruct (idx_bounds i Hi) as (Hpos & Hk0 & Hq).
+  unfold rrr_access. rewrite (wf_sr _ _ _ _ Hwf). destruct (N.eqb_spec sr 0) as [|_]; [lia|].
+  change rrr_BS with 15. set (pos := i / 15) in *. set (nsv := pos / sr) in *.
+  rewrite q_OP by lia. rewrite (u64_small (nsv * sr)) by lia.
+  rewrite acc_loop_spec by lia. replace (nsv * sr + N.of_nat (N.to_nat (pos - nsv * sr))) with pos by lia.
+  rewrite q_C by exact Hpos. rewrite (lgc_some E HE).
+  destruct (decode64 pos Hpos) as (off & Hoff & Hsb). rewrite Hoff, Hsb. f_equal.
+  rewrite land_bit_test, blk_testbit. unfold bv_access.
+  destruct (N.ltb_spec (i mod 15) 15); [|lia]. cbn [andb]. f_equal. unfold pos. lia.
+Qed.
+
+(* ---- rank1 ---- *)
+Lemma rank_one_spec k : k < nb ->
+  rrr_rank_one E d k (pc1 bv (15 * k)) (opos k) = Some (k + 1, pc1 bv (15 * (k + 1)), opos (k + 1)).
+Proof.
+  intros Hk. pose proof q_nb as Hnb. unfold rrr_rank_one. rewrite q_C by exact Hk. rewrite (lgc_some E HE).
+  pose proof (q_opos_lt (k + 1) ltac:(lia)) as Hp. pose proof (pc1_le bv (15 * (k + 1))) as Hc.
+  rewrite opos_succ in Hp. rewrite pc1_block in Hc.
+  rewrite !u32_small by lia. rewrite <- opos_succ, <- pc1_block. reflexivity.
+Qed.
+
+Lemma C_arr : arr32 (r_C d) /\ lenN (r_C d) = (4 * nb + 31) / 32 /\
+  forall q t, q < nb -> t < 4 -> wbit32 (r_C d) (q * 4 + t) = N.testbit (cls bv q) t.
+Proof.
+  pose proof q_nb as Hnb. rewrite (wf_C _ _ _ _ Hwf).
+  assert (Hlen : lenN (classes bv) < c32_W) by (rewrite (classes_len bv); fold n; fold nb; unfold c32_W; lia).
+  destruct (uint_len32_fits 4 (lenN (classes bv)) ltac:(lia) Hlen) as [H1 H2].
+  destruct (pack32w_spec _ 4 (classes bv) ltac:(lia) (classes_bound bv) H1 H2) as (A & HA & Harr & Hl & _ & Hb & _).
+  rewrite (pack32_is_pack32w 4 (classes bv) ltac:(lia) Hlen (classes_bound bv)) in HA. injection HA as <-.
+  split; [exact Harr|]. split.
+  - rewrite Hl, uint_len32_spec by (try exact Hlen; lia). rewrite (classes_len bv). reflexivity.
+  - intros q t Hq Ht. rewrite Hb by (try rewrite (classes_len bv); assumption).
+    rewrite (nth_indep _ 0 (cls bv 0)) by (pose proof (classes_len bv) as Hc; fold n in Hc; fold nb in Hc; unfold lenN in Hc; lia).
+    pose proof (classes_nth bv q Hq) as Hnth. unfold nthN in Hnth.
+    apply nth_error_nth with (d := cls bv 0) in Hnth. rewrite Hnth. reflexivity.
+Qed.
+
+Lemma cls_bit_high k t : 4 <= t -> N.testbit (cls bv k) t = false.
+Proof.
+  intros Ht. apply (testbit_lt_pow2_false _ t 4); [|exact Ht]. pose proof (cls_le bv k). change (2 ^ 4) with 16. lia.
+Qed.
+
+(* byte b of C holds the classes of blocks 2b (low nibble) and 2b+1 (high nibble) *)
+Lemma C_byte b : 2 * b + 1 < nb ->
+  exists v, rrr_byte (r_C d) b = Some v /\ N.land v 15 = cls bv (2 * b) /\ v / 16 = cls bv (2 * b + 1).
+Proof.
+  intros Hb. destruct C_arr as (HA & HL & Hbits). unfold rrr_byte. rewrite c32_rd_eq.
+  destruct (nthN_lt_Some (r_C d) (b / 4)) as (w & Hw); [rewrite HL; lia|]. rewrite Hw.
+  eexists. split; [reflexivity|].
+  set (v := (w / 2 ^ (8 * (b mod 4))) mod 256).
+  assert (Hv : forall t, t < 8 -> N.testbit v t = wbit32 (r_C d) (8 * b + t)).
+  { intros t Ht. unfold v. change 256 with (2 ^ 8). rewrite N.mod_pow2_bits_low by exact Ht.
+    rewrite N.div_pow2_bits. unfold wbit32. replace ((8 * b + t) / 32) with (b / 4) by lia. rewrite Hw.
+    f_equal. lia. }
+  assert (Hvh : forall t, 8 <= t -> N.testbit v t = false).
+  { intros t Ht. unfold v. change 256 with (2 ^ 8). apply N.mod_pow2_bits_high. exact Ht. }
+  split; apply N.bits_inj; intros t.
+  - change 15 with (N.ones 4). rewrite N.land_ones.
+    destruct (N.lt_ge_cases t 4) as [Ht|Ht].
+    + rewrite N.mod_pow2_bits_low by exact Ht. rewrite Hv by lia.
+      replace (8 * b + t) with (2 * b * 4 + t) by lia. apply Hbits; lia.
+    + rewrite N.mod_pow2_bits_high by exact Ht. symmetry. apply cls_bit_high. exact Ht.
+  - change 16 with (2 ^ 4). rewrite N.div_pow2_bits.
+    destruct (N.lt_ge_cases t 4) as [Ht|Ht].
+    + rewrite Hv by lia. replace (8 * b + (t + 4)) with ((2 * b + 1) * 4 + t) by lia. apply Hbits; lia.
+    + rewrite Hvh by lia. symmetry. apply cls_bit_high. exact Ht.
+Qed.
+
+Lemma rank_bytes_spec : forall cnt k, k mod 2 = 0 -> k + 2 * N.of_nat cnt <= nb - 1 + 1 -> k + 2 * N.of_nat cnt <= nb ->
+  (cnt = O \/ k + 2 * N.of_nat cnt < nb + 1) ->
+  rrr_rank_bytes E (r_C d) cnt (k / 2) k (pc1 bv (15 * k)) (opos k) =
+    Some (k + 2 * N.of_nat cnt, pc1 bv (15 * (k + 2 * N.of_nat cnt)), opos (k + 2 * N.of_nat cnt)).
+Proof.
+  pose proof q_nb as Hnb.
+  induction cnt as [|c IH]; intros k Hev Hk _ _; cbn [rrr_rank_bytes].
+  - rewrite N.mul_0_r, N.add_0_r. reflexivity.
+  - destruct (C_byte (k / 2)) as (v & Hv & Hlo & Hhi); [lia|]. rewrite Hv, Hlo, Hhi.
+    replace (2 * (k / 2)) with k by lia. rewrite !(lgc_some E HE).
+    pose proof (q_opos_lt (k + 2) ltac:(lia)) as Hp. pose proof (pc1_le bv (15 * (k + 2))) as Hc.
+    replace (k + 2) with (k + 1 + 1) in Hp, Hc by lia. rewrite opos_succ, opos_succ in Hp.
+    rewrite pc1_block, pc1_block in Hc.
+    rewrite !u32_small by lia.
+    replace (pc1 bv (15 * k) + (cls bv k + cls bv (k + 1))) with (pc1 bv (15 * (k + 1 + 1))) by (rewrite !pc1_block; lia).
+    replace (opos k + (lgc k + lgc (k + 1))) with (opos (k + 1 + 1)) by (rewrite !opos_succ; lia).
+    replace (k / 2 + 1) with ((k + 2) / 2) by lia. replace (k + 1 + 1) with (k + 2) by lia.
+    rewrite IH; [|lia|lia|lia|right; lia].
+    replace (k + 2 + 2 * N.of_nat c) with (k + 2 * N.of_nat (S c)) by lia. reflexivity.
+Qed.
+
+Theorem rrr_rank1_wf i : i < n -> rrr_rank1 E d i = Some (bv_rank1 bv i).
+Proof.
+  intros Hi. pose proof q_nb as Hnb. destruct (idx_bounds i Hi) as (Hpos & Hk0 & Hq).
+  unfold rrr_rank1. rewrite (u64_small (i + 1)) by lia. destruct (N.eqb_spec (i + 1) 0) as [|_]; [lia|].
+  rewrite (wf_sr _ _ _ _ Hwf). destruct (N.eqb_spec sr 0) as [|_]; [lia|].
+  change rrr_BS with 15. set (pos := i / 15) in *. set (nsv := pos / sr) in *.
+  rewrite (u32_small nsv) by lia. rewrite (u32_small pos) by lia. rewrite (u32_small (nsv * sr)) by lia.
+  rewrite q_CS by lia. rewrite q_OP by lia. set (k0 := nsv * sr) in *.
+  unfold csval. fold n. fold nb. replace (N.min (nsv * sr) nb) with k0 by (unfold k0; lia).
+  (* phase 1: make k even *)
+  assert (H1 : exists k1, (if (k0 mod 2 =? 1) && (k0 <? pos) then rrr_rank_one E d k0 (pc1 bv (15 * k0)) (opos k0)
+                           else Some (k0, pc1 bv (15 * k0), opos k0)) = Some (k1, pc1 bv (15 * k1), opos k1) /\
+                          k1 <= pos /\ (k1 mod 2 = 0 \/ k1 = pos)).
+  { destruct (N.eqb_spec (k0 mod 2) 1) as [Ho|Ho]; destruct (N.ltb_spec k0 pos) as [Hl|Hl]; cbn [andb].
+    - exists (k0 + 1). rewrite rank_one_spec by lia. split; [reflexivity|]. split; [lia|left; lia].
+    - exists k0. split; [reflexivity|]. split; [lia|right; lia].
+    - exists k0. split; [reflexivity|]. split; [lia|left; lia].
+    - exists k0. split; [reflexivity|]. split; [lia|right; lia]. }
+  destruct H1 as (k1 & -> & Hk1 & Hk1e).
+  (* phase 2: two classes per byte *)
+  assert (Hlim : rrr_rank_lim pos = pos - 1).
+  { unfold rrr_rank_lim. destruct (N.eqb_spec pos 0) as [->|]; [reflexivity|].
+    destruct (N.leb_spec 2147483648 pos); [lia|]. reflexivity. }
+  rewrite Hlim. set (cnt := N.to_nat ((pos - 1 - k1 + 1) / 2)).
+  assert (H2 : exists k2, rrr_rank_bytes E (r_C d) cnt (k1 / 2) k1 (pc1 bv (15 * k1)) (opos k1) =
+                          Some (k2, pc1 bv (15 * k2), opos k2) /\ k2 <= pos /\ pos <= k2 + 1).
+  { destruct (N.lt_ge_cases k1 (pos - 1)) as [Hlt|Hge].
+    - destruct Hk1e as [Hev|Heq]; [|lia]. exists (k1 + 2 * N.of_nat cnt).
+      split; [apply rank_bytes_spec; unfold cnt; try lia; right; lia|]. unfold cnt. lia.
+    - exists k1. replace cnt with O by (unfold cnt; lia). cbn [rrr_rank_bytes]. split; [reflexivity|lia]. }
+  destruct H2 as (k2 & -> & Hk2a & Hk2b).
+  (* phase 3: the last odd class *)
+  assert (H3 : (if k2 <? pos then rrr_rank_one E d k2 (pc1 bv (15 * k2)) (opos k2) else Some (k2, pc1 bv (15 * k2), opos k2)) =
+               Some (pos, pc1 bv (15 * pos), opos pos)).
+  { destruct (N.ltb_spec k2 pos) as [Hl|Hl].
+    - rewrite rank_one_spec by lia. replace (k2 + 1) with pos by lia. reflexivity.
+    - replace k2 with pos by lia. reflexivity. }
+  rewrite H3. rewrite q_C by exact Hpos. rewrite (lgc_some E HE).
+  destruct (decode32 pos Hpos) as (off & Hoff & Hsb). rewrite Hoff, Hsb. f_equal.
+  rewrite ones_pow2. pose proof (pc1_partial bv pos (i mod 15 + 1) ltac:(lia)) as Hp.
+  pose proof (pc1_le bv (15 * pos + (i mod 15 + 1))) as Hc.
+  rewrite u32_small by lia. rewrite <- Hp. unfold bv_rank1, pc1. f_equal. unfold pos. lia.
+Qed.
+
+Theorem rrr_rank0_wf i : i < n -> rrr_rank0 E d i = Some (bv_rank0 bv i).
+Proof.
+  intros Hi. unfold rrr_rank0. rewrite (u64_small (i + 1)) by lia. destruct (N.eqb_spec (i + 1) 0) as [|_]; [lia|].
+  rewrite rrr_rank1_wf by exact Hi. f_equal.
+  pose proof (bv_rank0_rank1 bv i Hi) as H. unfold c32_u64, c32_W64.
+  symmetry. apply (N.mod_unique _ _ 1); lia.
+Qed.
+
+End Query.
+
+(* ========================================================================= *)
+(* S. select                                                                   *)
+(* ========================================================================= *)
+
+(* occurrences of [want] among positions 0 .. x-1 of the bit vector continued with zeros for ever *)
+Definition Wc (bv : list bool) (want : bool) (x : N) : N := if want then pc1 bv x else x - pc1 bv x.
+Definition pbit (bv : list bool) (p : N) : bool := nth (N.to_nat p) bv false.
+
+Lemma pc1_succ bv p : pc1 bv (p + 1) = pc1 bv p + (if pbit bv p then 1 else 0).
+Proof.
+  unfold pc1, pbit. destruct (N.lt_ge_cases p (lenN bv)) as [H|H].
+  - rewrite prefix_count_succ by exact H. destruct (nth (N.to_nat p) bv false); reflexivity.
+  - rewrite !prefix_count_all by lia. rewrite nth_overflow by (unfold lenN in H; lia). lia.
+Qed.
+
+Lemma Wc_succ bv want p : Wc bv want (p + 1) = Wc bv want p + (if Bool.eqb (pbit bv p) want then 1 else 0).
+Proof.
+  unfold Wc. pose proof (pc1_succ bv p) as H. pose proof (pc1_le bv p) as Hl.
+  destruct want; destruct (pbit bv p); cbn [Bool.eqb] in *; lia.
+Qed.
+
+Lemma Wc_mono bv want a b : a <= b -> Wc bv want a <= Wc bv want b.
+Proof.
+  intros H. replace b with (a + (b - a)) by lia. generalize (b - a) as m. clear H b.
+  induction m as [|m IH] using N.peano_ind; [rewrite N.add_0_r; lia|].
+  rewrite <- N.add_1_r, N.add_assoc, Wc_succ. lia.
+Qed.
+
+Lemma Wc_0 bv want : Wc bv want 0 = 0.
+Proof. unfold Wc, pc1. rewrite prefix_count_0. destruct want; reflexivity. Qed.
+
+Lemma Wc_block bv want k : Wc bv want (15 * (k + 1)) = Wc bv want (15 * k) + (if want then cls bv k else 15 - cls bv k).
+Proof.
+  unfold Wc. pose proof (pc1_block bv k). pose proof (cls_le bv k). pose proof (pc1_le bv (15 * k)). destruct want; lia.
+Qed.
+
+Lemma blk_odd bv b t : t < 15 -> N.odd (blk bv b / 2 ^ t) = pbit bv (15 * b + t).
+Proof.
+  intros Ht. rewrite <- N.bit0_odd, N.div_pow2_bits, N.add_0_l, blk_testbit.
+  destruct (N.ltb_spec t 15); [|lia]. reflexivity.
+Qed.
+
+Section Select.
+Variable E : toff.
+Hypothesis HE : toff_ok E = true.
+Variable bv : list bool.
+Variable sr : N.
+Variable d : rrr.
+Hypothesis Hwf : rrr_wf E bv sr d.
+Let n := lenN bv.
+Let nb := nblocks n.
+Hypothesis Hn1 : 1 <= n.
+Hypothesis Hn : n < 4294967296.
+Hypothesis Hsr1 : 1 <= sr.
+Hypothesis Hsr : sr < 4294967296.
+Variable want : bool.
+(* sample_rate * BLOCK_SIZE is evaluated in uint by select0 *)
+Hypothesis Hsr15 : want = true \/ sr * 15 < 4294967296.
+Variable i : N.
+Hypothesis Hi1 : 1 <= i.
+Hypothesis Hi : i <= (if want then bv_ones bv else n - bv_ones bv).
+
+Notation lgc k := (lg E (cls bv k)).
+Notation opos := (opos E bv).
+Notation W := (Wc bv want).
+
+Lemma Hnb : 1 <= nb /\ 15 * (nb - 1) < n /\ n <= 15 * nb /\ nb < 286331154.
+Proof. exact (q_nb bv Hn1 Hn). Qed.
+Lemma qC k : k < nb -> get_field32 (r_C d) (r_C_field_bits d) k = Some (cls bv k).
+Proof. exact (q_C E bv sr d Hwf Hn1 Hn k). Qed.
+Lemma qCS q : q <= nb / sr + 1 -> get_field32 (r_C_sampling d) (r_C_sampling_field_bits d) q = Some (csval bv sr q).
+Proof. exact (q_CS E bv sr d Hwf Hn1 Hn Hsr1 Hsr q). Qed.
+Lemma qOP q : q * sr < nb -> get_field32 (r_O_pos d) (r_O_pos_field_bits d) q = Some (opos (q * sr)).
+Proof. exact (q_OP E HE bv sr d Hwf Hn1 Hn Hsr1 Hsr q). Qed.
+Lemma dec64 k : k < nb ->
+  exists off, get_var_field32 (r_O d) (opos k) (rrr_dec64 (c32_u64 (opos k + lgc k))) = Some off /\
+              rrr_short_bitmap E (cls bv k) off = Some (blk bv k).
+Proof. exact (decode64 E HE bv sr d Hwf Hn1 Hn Hsr1 Hsr k). Qed.
+Lemma oposlt k : k <= nb -> opos k < 4294967296.
+Proof. exact (q_opos_lt E HE bv sr Hn1 Hn Hsr1 Hsr k). Qed.
+
+Lemma csval_eq q : csval bv sr q = pc1 bv (15 * (q * sr)).
+Proof.
+  unfold csval. fold n. fold nb. destruct (N.le_gt_cases (q * sr) nb) as [H|H].
+  - rewrite N.min_l by exact H. reflexivity.
+  - rewrite N.min_r by lia. rewrite !pc1_total; [reflexivity| |]; fold n; pose proof Hnb; lia.
+Qed.
+
+Lemma W_total : i <= W (15 * nb).
+Proof.
+  pose proof Hnb. unfold Wc. rewrite pc1_total by (fold n; lia). destruct want; lia.
+Qed.
+
+Lemma W_bound x : W x <= x.
+Proof. unfold Wc. pose proof (pc1_le bv x). destruct want; lia. Qed.
+
+(* key of the binary search at sample q *)
+Definition keyv (q : N) : N := W (15 * (q * sr)).
+
+Lemma key_small q : keyv q < i -> q * sr < nb /\ q <= nb / sr.
+Proof.
+  intros H. assert (Hq : q * sr < nb).
+  { destruct (N.lt_ge_cases (q * sr) nb) as [Hlt|Hge]; [exact Hlt|].
+    pose proof (Wc_mono bv want (15 * nb) (15 * (q * sr)) ltac:(lia)). pose proof W_total. unfold keyv in H. lia. }
+  split; [exact Hq|]. apply N.div_le_lower_bound; lia.
+Qed.
+
+Lemma sel_key_spec q : q <= nb / sr + 1 -> rrr_sel_key want d q (csval bv sr q) = keyv q.
+Proof.
+  intros Hq. pose proof Hnb as Hnb'. unfold rrr_sel_key, keyv, Wc. rewrite (wf_sr _ _ _ _ Hwf). rewrite csval_eq. destruct want; [reflexivity|].
+  assert (Hq' : nb / sr <= nb) by (apply N.div_le_upper_bound; nia).
+  assert (Hqs : q * sr <= nb + sr) by (pose proof (N.mul_div_le nb sr ltac:(lia)); nia).
+  change rrr_BS with 15. rewrite (u64_small (q * sr)) by lia. rewrite (u64_small (q * sr * 15)) by lia.
+  pose proof (pc1_le bv (15 * (q * sr))). unfold c32_u64, c32_W64.
+  symmetry. apply (N.mod_unique _ _ 1); lia.
+Qed.
+
+(* lia with the quotient by the (variable) sample rate abstracted *)
+Ltac gdiv := repeat match goal with
+  | H : context [?a / sr] |- _ => generalize dependent (a / sr); intros
+  | |- context [?a / sr] => generalize dependent (a / sr); intros
+  end.
+Ltac dlia := gdiv; lia.
+
+(* ---- binary search ---- *)
+Lemma bsearch_done g start en : keyv start < i -> start <= en -> en <= nb + 1 -> (en = 0 \/ en <= start + 1) ->
+  rrr_sel_bsearch want d i (S g) start en = Some start.
+Proof.
+  intros Hk Hse Hen Hc. cbn [rrr_sel_bsearch]. destruct (N.eq_dec en 0) as [->|Hne].
+  - assert (start = 0) by lia. subst start. rewrite dec64_zero. change (0 <? 18446744073709551615) with true. cbv iota.
+    change (c32_u64 (0 + 0) / 2) with 0. unfold rrr_cs. rewrite qCS by apply N.le_0_l. rewrite sel_key_spec by apply N.le_0_l.
+    destruct (N.ltb_spec (keyv 0) i); [|lia]. reflexivity.
+  - rewrite dec64_pos by (pose proof Hnb; lia). destruct (N.ltb_spec start (en - 1)); [lia|reflexivity].
+Qed.
+
+Lemma bsearch_ok : forall f start en,
+  keyv start < i -> start <= en -> en <= nb / sr + 1 -> en - start <= 2 ^ N.of_nat f ->
+  exists s, rrr_sel_bsearch want d i (S f) start en = Some s /\ keyv s < i.
+Proof.
+  assert (Hq' : nb / sr <= nb) by (apply N.div_le_upper_bound; pose proof Hnb; nia).
+  induction f as [|f IH]; intros start en Hk Hse Hen Hd.
+  - exists start. split; [|exact Hk]. apply bsearch_done; try assumption; [lia|]. change (2 ^ N.of_nat 0) with 1 in Hd. lia.
+  - destruct (N.le_gt_cases en (start + 1)) as [Hle|Hgt].
+    + exists start. split; [|exact Hk]. apply bsearch_done; try assumption; [lia|]. right. exact Hle.
+    + rewrite Nat2N.inj_succ, N.pow_succ_r' in Hd. set (P := 2 ^ N.of_nat f) in *.
+      remember (S f) as g eqn:Eg. cbn [rrr_sel_bsearch]. subst g. rewrite dec64_pos by (pose proof Hnb; lia).
+      destruct (N.ltb_spec start (en - 1)) as [_|Hge]; [|lia].
+      rewrite (u64_small (start + en)) by (pose proof Hnb; lia). set (med := (start + en) / 2).
+      assert (Hmed : start < med /\ med < en) by (unfold med; lia).
+      unfold rrr_cs. rewrite qCS by (clear - Hmed Hen; dlia). rewrite sel_key_spec by (clear - Hmed Hen; dlia).
+      destruct (N.ltb_spec (keyv med) i) as [Hlt|Hge].
+      * destruct (N.eqb_spec med start) as [Heq|_]; [lia|]. apply IH; [exact Hlt|lia|exact Hen|clear - Hd Hgt; unfold med; lia].
+      * destruct (N.eqb_spec en 0) as [Heq|_]; [lia|]. rewrite dec64_pos by (pose proof Hnb; lia).
+        apply IH; [exact Hk|lia|clear - Hmed Hen; dlia|clear - Hd Hgt; unfold med; lia].
+Qed.
+
+(* ---- skipping equal samples ---- *)
+Lemma sel_step_spec : rrr_sel_step want d = if want then 0 else sr * 15.
+Proof.
+  unfold rrr_sel_step. rewrite (wf_sr _ _ _ _ Hwf). change rrr_BS with 15. destruct want; [reflexivity|].
+  destruct Hsr15 as [Hc|Hc]; [discriminate|]. apply u32_small. exact Hc.
+Qed.
+
+Lemma csval_le q : csval bv sr q <= 15 * (q * sr).
+Proof. rewrite csval_eq. apply pc1_le. Qed.
+
+Lemma skip_ok : forall fuel start, keyv start < i -> nb - 1 - start <= N.of_nat fuel ->
+  exists s, rrr_sel_skip want d fuel start (csval bv sr start) = Some (s, csval bv sr s) /\ keyv s < i.
+Proof.
+  assert (Hq' : nb / sr <= nb) by (apply N.div_le_upper_bound; pose proof Hnb; nia).
+  assert (Hbody : forall fuel start, keyv start < i ->
+            (forall f', fuel = S f' -> keyv (start + 1) < i ->
+               exists s, rrr_sel_skip want d f' (start + 1) (csval bv sr (start + 1)) = Some (s, csval bv sr s) /\ keyv s < i) ->
+            (fuel = O -> nb - 1 <= start) ->
+            exists s, rrr_sel_skip want d fuel start (csval bv sr start) = Some (s, csval bv sr s) /\ keyv s < i).
+  { intros fuel start Hk Hrec Hz. destruct (key_small start Hk) as [Hs1 Hs2].
+    assert (Hstep : forall rest, (if start <? rrr_dec32 (r_C_len d) then rest else Some (start, csval bv sr start)) =
+                                 (if start <? nb - 1 then rest else Some (start, csval bv sr start))).
+    { intros rest. rewrite (wf_C_len _ _ _ _ Hwf). fold n. fold nb. rewrite dec32_pos by (pose proof Hnb; lia). reflexivity. }
+    destruct fuel as [|f']; cbn [rrr_sel_skip]; rewrite Hstep; destruct (N.ltb_spec start (nb - 1)) as [Hlt|Hge];
+      try (exists start; split; [reflexivity|exact Hk]).
+    - specialize (Hz eq_refl). lia.
+    - rewrite (u64_small (start + 1)) by (pose proof Hnb; lia). unfold rrr_cs. rewrite qCS by lia.
+      rewrite sel_step_spec.
+      pose proof (csval_le start) as Hcl. pose proof (csval_le (start + 1)) as Hcl1.
+      assert (Hsz : start * sr <= nb /\ sr * 15 <= 64424509440) by (pose proof Hnb; nia).
+      rewrite (u64_small (csval bv sr start + (if want then 0 else sr * 15))) by (pose proof Hnb; destruct want; nia).
+      destruct (N.eqb_spec (csval bv sr start + (if want then 0 else sr * 15)) (csval bv sr (start + 1))) as [Heq|Hne].
+      + rewrite Heq. apply (Hrec f' eq_refl).
+        unfold keyv, Wc in *. rewrite <- !csval_eq in *. destruct want; [lia|nia].
+      + exists start. split; [reflexivity|exact Hk]. }
+  induction fuel as [|f IH]; intros start Hk Hf.
+  - apply Hbody; [exact Hk|discriminate|intros _; lia].
+  - apply Hbody; [exact Hk| |discriminate]. intros f' Hf' Hk'. injection Hf' as <-. apply IH; [exact Hk'|lia].
+Qed.
+
+(* ---- sequential search over C ---- *)
+Lemma sel_add_spec k : k < nb -> rrr_sel_add want (W (15 * k)) (cls bv k) = W (15 * (k + 1)).
+Proof.
+  intros Hk. pose proof Hnb. pose proof (W_bound (15 * k)) as Hb. pose proof (cls_le bv k) as Hc.
+  rewrite Wc_block. unfold rrr_sel_add. change rrr_BS with 15.
+  generalize dependent (W (15 * k)). intros w Hb. destruct want.
+  - apply u64_small. lia.
+  - rewrite (u64_small (w + 15)) by lia. unfold c32_u64, c32_W64. symmetry. apply (N.mod_unique _ _ 1); lia.
+Qed.
+
+Lemma scan_ok : forall cnt pos s0, pos + N.of_nat cnt = nb -> W (15 * pos) < i ->
+  exists b, rrr_sel_scan E want d i cnt pos (opos pos) (W (15 * pos)) s0 = Some (b, opos b, W (15 * b), cls bv b) /\
+            b < nb /\ W (15 * b) < i /\ i <= W (15 * (b + 1)).
+Proof.
+  induction cnt as [|c IH]; intros pos s0 Hp Hk.
+  - pose proof W_total. replace pos with nb in Hk by lia. lia.
+  - cbn [rrr_sel_scan]. rewrite qC by lia. rewrite sel_add_spec by lia.
+    destruct (N.leb_spec i (W (15 * (pos + 1)))) as [Hle|Hgt].
+    + exists pos. split; [reflexivity|]. split; [lia|]. split; [exact Hk|exact Hle].
+    + rewrite (lgc_some E HE). pose proof Hnb.
+      pose proof (oposlt (pos + 1) ltac:(lia)) as Ho. rewrite opos_succ in Ho.
+      rewrite (u64_small (pos + 1)) by lia. rewrite (u64_small (opos pos + lgc pos)) by lia. rewrite <- opos_succ.
+      apply IH; [lia|exact Hgt].
+Qed.
+
+(* ---- the scan inside the block ---- *)
+Lemma bits_ok b : b < nb -> i <= W (15 * (b + 1)) ->
+  forall cnt t, t + N.of_nat cnt = 15 -> W (15 * b + t) <= i -> (forall y, 15 * b <= y < 15 * b + t -> W y < i) ->
+  exists x, rrr_sel_bits want i cnt (15 * b + t) (W (15 * b + t)) (blk bv b / 2 ^ t) = (x, i) /\
+            x <= 15 * b + 15 /\ W x = i /\ (forall y, 15 * b <= y < x -> W y < i).
+Proof.
+  intros Hb Hi2. pose proof Hnb as Hnb'.
+  induction cnt as [|c IH]; intros t Ht Hacc Hmin.
+  - assert (t = 15) by lia. subst t. cbn [rrr_sel_bits]. replace (15 * b + 15) with (15 * (b + 1)) in * by lia.
+    exists (15 * (b + 1)). assert (W (15 * (b + 1)) = i) by lia. split; [congruence|]. split; [lia|]. split; assumption.
+  - cbn [rrr_sel_bits]. destruct (N.ltb_spec (W (15 * b + t)) i) as [Hlt|Hge].
+    + pose proof (W_bound (15 * b + t + 1)) as Hwb.
+      rewrite (u64_small (15 * b + t + 1)) by lia.
+      rewrite blk_odd by lia. rewrite <- Wc_succ. rewrite (u64_small (W (15 * b + t + 1))) by lia.
+      replace (blk bv b / 2 ^ t / 2) with (blk bv b / 2 ^ (t + 1)) by (rewrite N.pow_add_r, N.div_div by (try apply N.pow_nonzero; lia); reflexivity).
+      replace (15 * b + t + 1) with (15 * b + (t + 1)) by lia.
+      apply IH.
+      * lia.
+      * replace (15 * b + (t + 1)) with (15 * b + t + 1) by lia. rewrite Wc_succ.
+        destruct (Bool.eqb (pbit bv (15 * b + t)) want); lia.
+      * intros y Hy. destruct (N.eq_dec y (15 * b + t)) as [->|Hne]; [exact Hlt|apply Hmin; lia].
+    + exists (15 * b + t). assert (W (15 * b + t) = i) by lia. split; [congruence|]. split; [lia|]. split; assumption.
+Qed.
+
+Lemma inblock_ok b f : b < nb -> W (15 * b) < i -> i <= W (15 * (b + 1)) ->
+  exists x, rrr_sel_inblock E want d i (cls bv b) (S (S f)) (c32_u64 (b * 15)) (opos b) (W (15 * b)) = Some x /\
+            15 * b < x <= 15 * b + 15 /\ W x = i /\ W (x - 1) = i - 1 /\ pbit bv (x - 1) = want.
+Proof.
+  intros Hb Hlo Hhi. pose proof Hnb as Hnb'. cbn [rrr_sel_inblock].
+  destruct (N.ltb_spec (W (15 * b)) i) as [_|Hge]; [|lia].
+  rewrite (lgc_some E HE). destruct (dec64 b Hb) as (off & Hoff & Hsb).
+  pose proof (oposlt (b + 1) ltac:(lia)) as Ho. rewrite opos_succ in Ho.
+  rewrite Hoff, Hsb.
+  destruct (bits_ok b Hb Hhi 15%nat 0 ltac:(lia)) as (x & Hx & Hx1 & Hx2 & Hx3).
+  { rewrite N.add_0_r. lia. }
+  { intros y Hy. lia. }
+  rewrite N.add_0_r in Hx. change (2 ^ 0) with 1 in Hx. rewrite N.div_1_r in Hx.
+  rewrite (u64_small (b * 15)) by lia. replace (b * 15) with (15 * b) by lia.
+  change (N.to_nat rrr_BS) with 15%nat. rewrite Hx.
+  assert (Hxl : 15 * b < x).
+  { destruct (N.lt_ge_cases (15 * b) x) as [H|H]; [exact H|]. assert (x = 15 * b \/ x < 15 * b) by lia.
+    pose proof (Wc_mono bv want x (15 * b) ltac:(lia)). lia. }
+  exists x. split.
+  - destruct f as [|f']; cbn [rrr_sel_inblock]; destruct (N.ltb_spec i i); try lia; reflexivity.
+  - split; [lia|]. split; [exact Hx2|].
+    pose proof (Hx3 (x - 1) ltac:(lia)) as Hprev. pose proof (Wc_succ bv want (x - 1)) as Hs.
+    replace (x - 1 + 1) with x in Hs by lia. destruct (Bool.eqb (pbit bv (x - 1)) want) eqn:Eb.
+    + split; [lia|]. apply Bool.eqb_prop. exact Eb.
+    + lia.
+Qed.
+
+(* ---- the whole of select ---- *)
+Lemma select_core_ok :
+  exists p, rrr_select_core E want d i = Some p /\ p < n /\ pbit bv p = want /\ W (p + 1) = i.
+Proof.
+  pose proof Hnb as Hnb'.
+  assert (Hq' : nb / sr <= nb) by (apply N.div_le_upper_bound; nia).
+  unfold rrr_select_core. rewrite (wf_csl _ _ _ _ Hwf). fold n. fold nb.
+  rewrite dec32_pos by dlia. replace (nb / sr + 2 - 1) with (nb / sr + 1) by dlia.
+  assert (Hk0 : keyv 0 < i) by (unfold keyv; rewrite N.mul_0_l, N.mul_0_r, Wc_0; lia).
+  destruct (bsearch_ok (S (N.size_nat (nb / sr + 2))) 0 (nb / sr + 1) Hk0 ltac:(dlia) ltac:(dlia)) as (s0 & Hs0 & Hks0).
+  { pose proof (size_nat_gt (nb / sr + 2)) as Hsz. rewrite Nat2N.inj_succ, N.pow_succ_r' by lia. dlia. }
+  unfold rrr_bsearch_fuel. rewrite (wf_csl _ _ _ _ Hwf). fold n. fold nb. rewrite Hs0.
+  destruct (key_small s0 Hks0) as [Hs0a Hs0b].
+  unfold rrr_cs at 1. rewrite qCS by dlia.
+  rewrite (wf_C_len _ _ _ _ Hwf). fold n. fold nb.
+  destruct (skip_ok (N.to_nat nb) s0 Hks0 ltac:(dlia)) as (s & Hs & Hks). rewrite Hs.
+  destruct (key_small s Hks) as [Hsa Hsb].
+  rewrite (wf_sr _ _ _ _ Hwf). rewrite qOP by exact Hsa.
+  assert (Hacc : (if want then rrr_cs d s
+                  else Some (c32_u64 (c32_u64 (c32_u64 (s * sr) * rrr_BS) + c32_W64 - csval bv sr s))) = Some (keyv s)).
+  { pose proof (sel_key_spec s ltac:(dlia)) as Hkey. unfold rrr_sel_key in Hkey. rewrite (wf_sr _ _ _ _ Hwf) in Hkey.
+    destruct want.
+    - unfold rrr_cs. rewrite qCS by dlia. f_equal. exact Hkey.
+    - f_equal. exact Hkey. }
+  rewrite Hacc. rewrite (u64_small (s * sr)) by dlia. unfold keyv.
+  destruct (scan_ok (N.to_nat (nb - s * sr)) (s * sr) 0 ltac:(dlia) Hks) as (b & Hb & Hb1 & Hb2 & Hb3). rewrite Hb.
+  unfold rrr_inblock_fuel. change (2 + 8 * (length (r_C d) + length (r_O d)))%nat with (S (S (8 * (length (r_C d) + length (r_O d))))).
+  change rrr_BS with 15.
+  destruct (inblock_ok b (8 * (length (r_C d) + length (r_O d))) Hb1 Hb2 Hb3) as (x & Hx & Hx1 & Hx2 & Hx3 & Hx4).
+  rewrite Hx. exists (x - 1). split; [rewrite dec64_pos by dlia; reflexivity|].
+  replace (x - 1 + 1) with x by dlia. split; [|split; [exact Hx4|exact Hx2]].
+  (* the position found lies inside the bit vector *)
+  destruct (N.lt_ge_cases (x - 1) n) as [Hlt|Hge]; [exact Hlt|exfalso].
+  destruct want.
+  - unfold pbit in Hx4. rewrite nth_overflow in Hx4 by (unfold n, lenN in Hge; lia). discriminate.
+  - unfold Wc in Hx3. rewrite pc1_total in Hx3 by (fold n; lia). lia.
+Qed.
+
+End Select.
+
+Theorem rrr_select1_wf E bv sr d j : toff_ok E = true -> rrr_wf E bv sr d ->
+  1 <= lenN bv -> lenN bv < 4294967296 -> 1 <= sr < 4294967296 ->
+  1 <= j <= bv_ones bv -> rrr_select1 E d j = bv_select1 bv j.
+Proof.
+  intros HE Hwf Hn1 Hn [Hsr1 Hsr] [Hj1 Hj].
+  destruct (select_core_ok E HE bv sr d Hwf Hn1 Hn Hsr1 Hsr true (or_introl eq_refl) j Hj1 Hj) as (p & Hp & Hpn & Hpb & Hpw).
+  unfold rrr_select1. destruct (N.eqb_spec j 0) as [|_]; [lia|].
+  rewrite (wf_ones _ _ _ _ Hwf). destruct (N.ltb_spec (bv_ones bv) j) as [|_]; [lia|].
+  rewrite Hp. symmetry. rewrite <- Hpw. unfold Wc. apply (bv_select_rank1 bv p Hpn). exact Hpb.
+Qed.
+
+Theorem rrr_select0_wf E bv sr d j : toff_ok E = true -> rrr_wf E bv sr d ->
+  1 <= lenN bv -> lenN bv < 4294967296 -> 1 <= sr -> sr * 15 < 4294967296 ->
+  1 <= j <= bv_zeros bv -> rrr_select0 E d j = bv_select0 bv j.
+Proof.
+  intros HE Hwf Hn1 Hn Hsr1 Hsr15 [Hj1 Hj].
+  pose proof (countb_compl bv) as Hcc. fold (bv_ones bv) in Hcc. fold (bv_zeros bv) in Hcc.
+  assert (Hsr : sr < 4294967296) by lia. assert (Hj' : j <= lenN bv - bv_ones bv) by lia.
+  destruct (select_core_ok E HE bv sr d Hwf Hn1 Hn Hsr1 Hsr false (or_intror Hsr15) j Hj1 Hj') as (p & Hp & Hpn & Hpb & Hpw).
+  unfold rrr_select0. destruct (N.eqb_spec j 0) as [|_]; [lia|].
+  rewrite (wf_ones _ _ _ _ Hwf), (wf_length _ _ _ _ Hwf).
+  assert (Hz : c32_u64 (lenN bv + c32_W64 - bv_ones bv) = bv_zeros bv).
+  { unfold c32_u64, c32_W64. symmetry. apply (N.mod_unique _ _ 1); lia. }
+  rewrite Hz. destruct (N.ltb_spec (bv_zeros bv) j) as [|_]; [lia|].
+  rewrite Hp. symmetry.
+  assert (Hr : bv_rank0 bv p = j).
+  { pose proof (bv_rank0_rank1 bv p Hpn) as H. unfold Wc in Hpw. unfold bv_rank1 in H. fold (pc1 bv (p + 1)) in H.
+    pose proof (pc1_le bv (p + 1)). lia. }
+  rewrite <- Hr. apply (bv_select_rank0 bv p Hpn). exact Hpb.
+Qed.
+
+(* ========================================================================= *)
+(* the empty bit vector, the out-of-range conventions                           *)
+(* ========================================================================= *)
+
+Lemma cs_pad_fb0 : forall cnt j CS s, rrr_cs_pad 0 cnt j CS s = Some CS.
+Proof. induction cnt as [|c IH]; intros j CS s; cbn [rrr_cs_pad]; [reflexivity|]. apply IH. Qed.
+
+(* n = 0: the constructor succeeds for every sample rate (no block, O = one zero word, empty O_pos);
+   no table entry is read.  Every query position is then out of the domain. *)
+Theorem rrr_build_empty E sr : 1 <= sr < 4294967296 ->
+  rrr_of_bits E [] sr = Some (mkRRR 0 0 [] [0] 0 1 4 0 [0] [] 2 1 0 0 sr).
+Proof.
+  intros [H1 H2]. unfold rrr_of_bits, rrr_build, rrr_build_gen. cbv zeta.
+  change (lenN (@nil bool)) with 0. change rrr_BS with 15. change (bits32 15) with 4.
+  change (c32_u32 (0 / 15 + (if 0 mod 15 =? 0 then 0 else 1))) with 0.
+  change (N.to_nat 0) with O. cbn [rrr_build_C rrr_build_O].
+  change (N.max 1 (uint_len32 1 0)) with 1. change (repeat 0 (N.to_nat 1)) with [0].
+  unfold rrr_create_sampling_gen. cbv zeta. destruct (N.eqb_spec sr 0) as [|_]; [lia|].
+  cbn [r_C_len r_ones r_C r_C_field_bits r_O_bits_len r_length r_O r_O_len].
+  rewrite N.div_0_l by lia. change (c32_u32 (0 + 2)) with 2. change (c32_u32 (0 + 1)) with 1.
+  change (bits32 (c32_u32 0)) with 0. change (bits32 0) with 0.
+  change (uint_len32 2 0) with 0. change (uint_len32 1 0) with 0. change (N.max 1 0) with 1.
+  change (N.to_nat 0) with O. change (repeat 0 (N.to_nat 1)) with [0]. cbn [rrr_cs_loop rrr_op_loop repeat].
+  rewrite cs_pad_fb0. reflexivity.
+Qed.
+
+Theorem rrr_select1_out_of_range E d j : j = 0 \/ r_ones d < j -> rrr_select1 E d j = Some (2 ^ 64 - 1).
+Proof.
+  intros H. unfold rrr_select1. destruct (N.eqb_spec j 0) as [|Hne]; [reflexivity|].
+  destruct (N.ltb_spec (r_ones d) j); [reflexivity|lia].
+Qed.
+
+Theorem rrr_select0_out_of_range E d j : r_ones d <= r_length d -> r_length d < 2 ^ 64 ->
+  j = 0 \/ r_length d - r_ones d < j -> rrr_select0 E d j = Some (2 ^ 32 - 1).
+Proof.
+  intros Ho Hl H. unfold rrr_select0. destruct (N.eqb_spec j 0) as [|Hne]; [reflexivity|].
+  replace (c32_u64 (r_length d + c32_W64 - r_ones d)) with (r_length d - r_ones d).
+  - destruct (N.ltb_spec (r_length d - r_ones d) j); [reflexivity|lia].
+  - unfold c32_u64, c32_W64. change (2 ^ 64) with 18446744073709551616 in Hl. apply (N.mod_unique _ _ 1); lia.
+Qed.
+
+Theorem rrr_rank_minus1 E d : rrr_rank1 E d (2 ^ 64 - 1) = Some 0 /\ rrr_rank0 E d (2 ^ 64 - 1) = Some 0.
+Proof. split; reflexivity. Qed.
+
+(* ========================================================================= *)
+(* R. refutations                                                              *)
+(* ========================================================================= *)
+
+(* before commit 6ffe6c2 (O_len = uint_len(1, O_bits_len)): every block of the all-zero 16-bit
+   vector is uniform, O has no word, and the first set_var_field of the second loop touches O[0] *)
+Theorem rrr_build_old_refuted :
+  exists bv sr, lenN bv = 16 /\ 1 <= sr /\ rrr_of_bits_old rrr_E bv sr = None /\
+    rrr_build_O rrr_E (words_of_bits bv) 16 2 0 [] 0 = None /\
+    set_var_field32 [] 0 (rrr_dec32 (0 + 0)) 0 = None /\
+    exists d, rrr_of_bits rrr_E bv sr = Some d /\ r_O d = [0] /\ r_O_bits_len d = 0.
+Proof.
+  exists (repeat false 16), 2. split; [reflexivity|]. split; [lia|]. split; [vm_compute; reflexivity|].
+  split; [vm_compute; reflexivity|]. split; [vm_compute; reflexivity|].
+  eexists. split; [vm_compute; reflexivity|]. split; reflexivity.
+Qed.
+
+(* the seeded change of create_sampling (padding loop started at C_len / sample_rate + 1): when the
+   sample rate divides the number of blocks, C_sampling[C_len / sample_rate] keeps 0 and select1 never
+   finds its block *)
+Definition latepad_bv : list bool := repeat true 30.
+
+Definition latepad_d : rrr := mkRRR 30 30 [255] [0] 2 1 4 0 [30720] [] 3 2 5 0 2.
+
+Theorem rrr_latepad_refuted :
+  rrr_of_bits_latepad rrr_E latepad_bv 2 = Some latepad_d /\
+  (forall j, 1 <= j <= 30 -> rrr_select1 rrr_E latepad_d j = None) /\
+  rrr_cs latepad_d 1 = Some 0 /\
+  exists d', rrr_of_bits rrr_E latepad_bv 2 = Some d' /\ rrr_cs d' 1 = Some 30 /\ rrr_select1 rrr_E d' 30 = Some 29.
+Proof.
+  split; [vm_compute; reflexivity|]. split; [|split; [vm_compute; reflexivity|]].
+  - intros j Hj.
+    assert (Hall : forallb (fun j => match rrr_select1 rrr_E latepad_d j with None => true | Some _ => false end)
+              (rrr_range 30 1) = true) by (vm_compute; reflexivity).
+    rewrite forallb_forall in Hall. specialize (Hall j ltac:(apply rrr_range_In; lia)).
+    destruct (rrr_select1 rrr_E latepad_d j); [discriminate|reflexivity].
+  - eexists. split; [vm_compute; reflexivity|]. split; vm_compute; reflexivity.
+Qed.
+
+(* ... and it is a genuine infinite loop of "Search inside the block", not a bounds violation:
+   with s = 0 the block read is empty for ever, whatever the fuel *)
+Theorem rrr_latepad_diverges : forall fuel pos,
+  rrr_sel_inblock rrr_E true latepad_d 1 0 fuel pos 0 0 = None.
+Proof.
+  induction fuel as [|f IH]; intros pos; cbn [rrr_sel_inblock]; change (0 <? 1) with true; cbv iota; [reflexivity|].
+  assert (Hl : rrr_log2 rrr_E 0 = Some 0) by (vm_compute; reflexivity). rewrite Hl.
+  change (c32_u64 (0 + 0)) with 0. change (rrr_dec64 0) with 18446744073709551615.
+  unfold latepad_d at 1. cbn [r_O].
+  assert (Hg : get_var_field32 [0] 0 18446744073709551615 = Some 0) by reflexivity. rewrite Hg.
+  assert (Hs : rrr_short_bitmap rrr_E 0 0 = Some 0) by (vm_compute; reflexivity). rewrite Hs.
+  destruct (rrr_sel_bits true 1 (N.to_nat rrr_BS) pos 0 0) as [pos' acc'] eqn:Eb.
+  assert (Hbits : forall c p, snd (rrr_sel_bits true 1 c p 0 0) = 0).
+  { induction c as [|c IHc]; intros p; cbn [rrr_sel_bits]; [reflexivity|].
+    change (0 <? 1) with true. cbv iota. change (N.odd 0) with false. cbn [Bool.eqb].
+    change (c32_u64 (0 + 0)) with 0. change (0 / 2) with 0. apply IHc. }
+  assert (Hacc : acc' = 0) by (pose proof (Hbits (N.to_nat rrr_BS) pos) as Hb; rewrite Eb in Hb; exact Hb).
+  subst acc'. apply IH.
+Qed.
+
+(* sample rates >= 2^32 / 15: select0 evaluates sample_rate * BLOCK_SIZE in uint; with 14 ones in a
+   16-bit vector and sample_rate = 286331154 (15 * sample_rate = 2^32 + 14) the skip loop jumps over the answer *)
+Definition bigsr_bv : list bool := repeat true 14 ++ [false; false].
+
+Theorem rrr_select0_big_sample_rate_refuted :
+  exists d, rrr_of_bits rrr_E bigsr_bv 286331154 = Some d /\
+    rrr_select0 rrr_E d 1 = Some 4294967309 /\ bv_select0 bigsr_bv 1 = Some 14 /\
+    rrr_select1 rrr_E d 14 = bv_select1 bigsr_bv 14.
+Proof.
+  eexists. split; [vm_compute; reflexivity|]. split; [vm_compute; reflexivity|]. split; vm_compute; reflexivity.
+Qed.
+
+(* ========================================================================= *)
+(* the statements for the table the C++ builds (rrr_E)                          *)
+(* ========================================================================= *)
+
+Definition rrr_len_ok (bv : list bool) : Prop := 1 <= lenN bv /\ lenN bv < 4294967296.
+
+Theorem rrr_build_ok bv sr : rrr_len_ok bv -> 1 <= sr < 4294967296 ->
+  exists d, rrr_of_bits rrr_E bv sr = Some d /\ rrr_wf rrr_E bv sr d /\
+    r_length d = lenN bv /\ r_ones d = bv_ones bv /\ r_C_len d = nblocks (lenN bv) /\
+    r_sample_rate d = sr /\ 1 <= lenN (r_O d) /\ lenN (r_O d) = r_O_len d /\
+    r_C_sampling_len d = nblocks (lenN bv) / sr + 2 /\ r_O_pos_len d = nblocks (lenN bv) / sr + 1.
+Proof.
+  intros [Hn1 Hn] Hsr. destruct (rrr_build_wf rrr_E bv sr rrr_E_ok Hn1 Hn Hsr) as (d & Hd & Hwf).
+  exists d. split; [exact Hd|]. split; [exact Hwf|].
+  destruct (wf_O _ _ _ _ Hwf) as (_ & HL & _). pose proof (wf_O_len1 _ _ _ _ Hwf).
+  repeat split; try apply Hwf; try lia.
+Qed.
+
+Section Exported.
+Variables (bv : list bool) (sr : N) (d : rrr).
+Hypothesis Hlen : rrr_len_ok bv.
+Hypothesis Hsr : 1 <= sr < 4294967296.
+Hypothesis Hd : rrr_of_bits rrr_E bv sr = Some d.
+
+Lemma built_wf : rrr_wf rrr_E bv sr d.
+Proof.
+  destruct Hlen as [Hn1 Hn]. destruct (rrr_build_wf rrr_E bv sr rrr_E_ok Hn1 Hn Hsr) as (d' & Hd' & Hwf).
+  rewrite Hd in Hd'. injection Hd' as <-. exact Hwf.
+Qed.
+
+Theorem rrr_access_spec i : i < lenN bv -> rrr_access rrr_E d i = Some (bv_access bv i).
+Proof. destruct Hlen, Hsr. apply (rrr_access_wf rrr_E rrr_E_ok bv sr d built_wf); assumption. Qed.
+Theorem rrr_rank1_spec i : i < lenN bv -> rrr_rank1 rrr_E d i = Some (bv_rank1 bv i).
+Proof. destruct Hlen, Hsr. apply (rrr_rank1_wf rrr_E rrr_E_ok bv sr d built_wf); assumption. Qed.
+Theorem rrr_rank0_spec i : i < lenN bv -> rrr_rank0 rrr_E d i = Some (bv_rank0 bv i).
+Proof. destruct Hlen, Hsr. apply (rrr_rank0_wf rrr_E rrr_E_ok bv sr d built_wf); assumption. Qed.
+Theorem rrr_select1_spec j : 1 <= j <= bv_ones bv -> rrr_select1 rrr_E d j = bv_select1 bv j.
+Proof. destruct Hlen. apply (rrr_select1_wf rrr_E bv sr d j rrr_E_ok built_wf); assumption. Qed.
+Theorem rrr_select0_spec j : sr * 15 < 4294967296 -> 1 <= j <= bv_zeros bv -> rrr_select0 rrr_E d j = bv_select0 bv j.
+Proof. destruct Hlen, Hsr. intros. apply (rrr_select0_wf rrr_E bv sr d j rrr_E_ok built_wf); assumption. Qed.
+
+(* no read outside C, O, C_sampling, O_pos, the caller's array or the table; no loop runs out of fuel *)
+Theorem rrr_no_oob :
+  (forall i, i < lenN bv -> rrr_access rrr_E d i <> None /\ rrr_rank1 rrr_E d i <> None /\ rrr_rank0 rrr_E d i <> None) /\
+  (forall j, 1 <= j <= bv_ones bv -> exists p, rrr_select1 rrr_E d j = Some p /\ p < lenN bv) /\
+  (forall j, sr * 15 < 4294967296 -> 1 <= j <= bv_zeros bv -> exists p, rrr_select0 rrr_E d j = Some p /\ p < lenN bv).
+Proof.
+  split; [|split].
+  - intros i Hi. rewrite rrr_access_spec, rrr_rank1_spec, rrr_rank0_spec by exact Hi. repeat split; discriminate.
+  - intros j Hj. rewrite rrr_select1_spec by exact Hj.
+    destruct (bv_rank_select1 bv j Hj) as (p & Hp & Hpn & _). exists p. split; assumption.
+  - intros j Hs Hj. rewrite rrr_select0_spec by assumption.
+    destruct (bv_rank_select0 bv j Hj) as (p & Hp & Hpn & _). exists p. split; assumption.
+Qed.
+End Exported.
+
+(* the table: both directions of the bijection and the field width, for the table the C++ builds *)
+Theorem rrr_table_block_to_offset b : b < 2 ^ 15 ->
+  exists o bn l, rrr_compute_offset rrr_E b = Some o /\ e_get_binomial rrr_E 15 (popcount b) = Some bn /\
+    rrr_log2 rrr_E (popcount b) = Some l /\ o < bn /\ o < 2 ^ l /\ popcount b <= 15 /\
+    rrr_short_bitmap rrr_E (popcount b) o = Some b.
+Proof. apply (table_block_to_offset rrr_E rrr_E_ok). Qed.
+Theorem rrr_table_offset_to_block c o bn : c <= 15 -> e_get_binomial rrr_E 15 c = Some bn -> o < bn ->
+  exists b, rrr_short_bitmap rrr_E c o = Some b /\ b < 2 ^ 15 /\ popcount b = c /\ rrr_compute_offset rrr_E b = Some o.
+Proof. apply (table_offset_to_block rrr_E rrr_E_ok). Qed.
+Theorem rrr_table_log2binomial c bn : c <= 15 -> e_get_binomial rrr_E 15 c = Some bn ->
+  rrr_log2 rrr_E c = Some (bits32 (bn - 1)).
+Proof. apply (table_log2binomial rrr_E rrr_E_ok). Qed.
+
+(* ========================================================================= *)
+(* save / load                                                                  *)
+(* ========================================================================= *)
+
+(* create_sampling reads only the members that save() writes *)
+Lemma create_sampling_base E padf a b c o e f g h x1 x2 x3 x4 x5 x6 x7 y1 y2 y3 y4 y5 y6 y7 sr :
+  rrr_create_sampling_gen E padf (mkRRR a b c o e f g h x1 x2 x3 x4 x5 x6 x7) sr =
+  rrr_create_sampling_gen E padf (mkRRR a b c o e f g h y1 y2 y3 y4 y5 y6 y7) sr.
+Proof. reflexivity. Qed.
+
+Lemma create_sampling_fields E padf d0 sr d : rrr_create_sampling_gen E padf d0 sr = Some d ->
+  r_length d = r_length d0 /\ r_ones d = r_ones d0 /\ r_C d = r_C d0 /\ r_O d = r_O d0 /\ r_C_len d = r_C_len d0 /\
+  r_O_len d = r_O_len d0 /\ r_C_field_bits d = r_C_field_bits d0 /\ r_O_bits_len d = r_O_bits_len d0 /\ r_sample_rate d = sr.
+Proof.
+  unfold rrr_create_sampling_gen. cbv zeta. destruct (sr =? 0); [discriminate|].
+  destruct (rrr_cs_loop _ _ _ _ _ _ _ _) as [[cs1 sum]|]; [|discriminate].
+  destruct (rrr_cs_pad _ _ _ _ _) as [cs|]; [|discriminate].
+  destruct (rrr_op_loop _ _ _ _ _ _ _ _ _) as [op|]; [|discriminate].
+  intros H. injection H as <-. cbn. repeat split; reflexivity.
+Qed.
+
+Lemma build_inv E bv sr d : rrr_of_bits E bv sr = Some d ->
+  rrr_create_sampling E (mkRRR (r_length d) (r_ones d) (r_C d) (r_O d) (r_C_len d) (r_O_len d) (r_C_field_bits d)
+                               (r_O_bits_len d) [] [] 0 0 0 0 (r_sample_rate d)) sr = Some d.
+Proof.
+  unfold rrr_of_bits, rrr_build, rrr_build_gen. cbv zeta.
+  destruct (rrr_build_C _ _ _ _ _ _ _ _ _) as [[[C ones] obl]|]; [|discriminate].
+  destruct (rrr_build_O _ _ _ _ _ _ _) as [Ow|]; [|discriminate].
+  intros H. pose proof (create_sampling_fields _ _ _ _ _ H) as (H1 & H2 & H3 & H4 & H5 & H6 & H7 & H8 & H9).
+  cbn [r_length r_ones r_C r_O r_C_len r_O_len r_C_field_bits r_O_bits_len] in *.
+  rewrite H1, H2, H3, H4, H5, H6, H7, H8. unfold rrr_create_sampling.
+  rewrite <- H. apply create_sampling_base.
+Qed.
+
+Theorem rrr_load_save E bv sr d rest : toff_ok E = true ->
+  1 <= lenN bv -> lenN bv < 4294967296 -> 1 <= sr < 4294967296 ->
+  rrr_of_bits E bv sr = Some d ->
+  exists img, rrr_save d = Some img /\ rrr_load E (img ++ rest) = Some (d, rest).
+Proof.
+  intros HE Hn1 Hn Hsr Hd.
+  destruct (rrr_build_wf E bv sr HE Hn1 Hn Hsr) as (d' & Hd' & Hwf). rewrite Hd in Hd'. injection Hd' as <-.
+  pose proof (build_inv E bv sr d Hd) as Hinv.
+  pose proof (nb_bounds bv Hn1 Hn) as Hnb.
+  destruct (C_arr E bv sr d Hwf Hn1 Hn (proj1 Hsr) (proj2 Hsr)) as ((HCw & _) & HCl & _).
+  destruct (wf_O _ _ _ _ Hwf) as ((HOw & _) & HOl & _).
+  pose proof (opos_le E HE bv (nblocks (lenN bv))) as Hop.
+  pose proof (countb_le_len true bv) as Hones. fold (bv_ones bv) in Hones.
+  assert (Hcw : uint_len32 (r_C_len d) (r_C_field_bits d) = lenN (r_C d)).
+  { rewrite (wf_C_len _ _ _ _ Hwf), (wf_cfb _ _ _ _ Hwf), HCl. rewrite uint_len32_comm by lia.
+    rewrite uint_len32_spec by (unfold c32_W; lia). reflexivity. }
+  assert (HOlen : r_O_len d < 4294967296).
+  { pose proof (wf_O_len _ _ _ _ Hwf) as H1. pose proof (wf_O_len1 _ _ _ _ Hwf) as H2.
+    unfold rrr_of_bits, rrr_build, rrr_build_gen in Hd. cbv zeta in Hd.
+    destruct (rrr_build_C _ _ _ _ _ _ _ _ _) as [[[C ones] obl]|]; [|discriminate].
+    destruct (rrr_build_O _ _ _ _ _ _ _) as [Ow|]; [|discriminate].
+    apply create_sampling_fields in Hd. destruct Hd as (_ & _ & _ & _ & _ & H6 & _). cbn [r_O_len] in H6. rewrite H6.
+    assert (uint_len32 1 obl < 4294967296) by (unfold uint_len32, c32_u32, c32_W; apply N.mod_lt; lia). lia. }
+  assert (HtC : take_exact (uint_len32 (r_C_len d) (r_C_field_bits d)) (r_C d) = Some (r_C d)).
+  { unfold take_exact. rewrite Hcw, N.leb_refl. unfold lenN. rewrite Nat2N.id, firstn_all. reflexivity. }
+  assert (HtO : take_exact (r_O_len d) (r_O d) = Some (r_O d)).
+  { unfold take_exact. rewrite <- HOl, N.leb_refl. unfold lenN. rewrite Nat2N.id, firstn_all. reflexivity. }
+  unfold rrr_save. rewrite HtC, HtO.
+  eexists. split; [reflexivity|].
+  rewrite <- !app_assoc. unfold rrr_load.
+  change 4 with (lenN (le_bytes 4 RRR02_HDR)) at 1. rewrite take_bytes_app.
+  change (le_value (le_bytes 4 RRR02_HDR) =? RRR02_HDR) with true. cbn [negb].
+  replace 8 with (lenN (le_bytes 8 (r_length d))) at 1 by apply lenN_le_bytes. rewrite take_bytes_app.
+  replace 8 with (lenN (le_bytes 8 (r_ones d))) at 1 by apply lenN_le_bytes. rewrite take_bytes_app.
+  replace 4 with (lenN (le_bytes 4 (r_C_len d))) at 1 by apply lenN_le_bytes. rewrite take_bytes_app.
+  replace 4 with (lenN (le_bytes 4 (r_C_field_bits d))) at 1 by apply lenN_le_bytes. rewrite take_bytes_app.
+  replace 4 with (lenN (le_bytes 4 (r_O_len d))) at 1 by apply lenN_le_bytes. rewrite take_bytes_app.
+  replace 4 with (lenN (le_bytes 4 (r_O_bits_len d))) at 1 by apply lenN_le_bytes. rewrite take_bytes_app.
+  replace 4 with (lenN (le_bytes 4 (r_sample_rate d))) at 1 by apply lenN_le_bytes. rewrite take_bytes_app.
+  cbv zeta.
+  rewrite (le_value_le_bytes 8 (r_length d)) by (rewrite (wf_length _ _ _ _ Hwf); change (256 ^ N.of_nat 8) with 18446744073709551616; lia).
+  rewrite (le_value_le_bytes 8 (r_ones d)) by (rewrite (wf_ones _ _ _ _ Hwf); change (256 ^ N.of_nat 8) with 18446744073709551616; lia).
+  rewrite (le_value_le_bytes 4 (r_C_len d)) by (rewrite (wf_C_len _ _ _ _ Hwf); change (256 ^ N.of_nat 4) with 4294967296; lia).
+  rewrite (le_value_le_bytes 4 (r_C_field_bits d)) by (rewrite (wf_cfb _ _ _ _ Hwf); reflexivity).
+  rewrite (le_value_le_bytes 4 (r_O_len d)) by (change (256 ^ N.of_nat 4) with 4294967296; exact HOlen).
+  rewrite (le_value_le_bytes 4 (r_O_bits_len d)) by (rewrite (wf_obl _ _ _ _ Hwf); change (256 ^ N.of_nat 4) with 4294967296; lia).
+  rewrite (le_value_le_bytes 4 (r_sample_rate d)) by (rewrite (wf_sr _ _ _ _ Hwf); change (256 ^ N.of_nat 4) with 4294967296; lia).
+  rewrite Hcw.
+  replace (4 * lenN (r_C d)) with (lenN (flat_map (le_bytes 4) (r_C d))) by apply flat_map_le4_length.
+  rewrite take_bytes_app.
+  replace (4 * r_O_len d) with (lenN (flat_map (le_bytes 4) (r_O d))) by (rewrite flat_map_le4_length, HOl; reflexivity).
+  rewrite take_bytes_app.
+  replace (N.to_nat (lenN (r_C d))) with (length (r_C d)) by (unfold lenN; lia).
+  replace (N.to_nat (r_O_len d)) with (length (r_O d)) by (rewrite <- HOl; unfold lenN; lia).
+  rewrite !words32_roundtrip by assumption.
+  rewrite (wf_sr _ _ _ _ Hwf) in *. rewrite Hinv. reflexivity.
+Qed.
+
+(* ========================================================================= *)
+(* the pointer wavelet tree over RRR bitmaps (FM-index with sparse_bitsequence, XBW) *)
+(* ========================================================================= *)
+Section WTOverRRR.
+  Variable sr : N.
+  Hypothesis Hsr1 : 1 <= sr.
+  Hypothesis Hsr15 : sr * 15 < 4294967296.
+
+  Let Hsr : 1 <= sr < 4294967296. Proof. lia. Qed.
+
+  Lemma rrrt_built bits : lenN bits < W32 - 64 ->
+    rrr_of_bits rrr_E bits sr = Some (rrrt_build sr bits).
+  Proof.
+    intros H. unfold rrrt_build, rrrt_build_e. destruct (N.eq_dec (lenN bits) 0) as [Hz|Hz].
+    - assert (bits = []) by (destruct bits; [reflexivity|unfold lenN in Hz; cbn in Hz; lia]). subst bits.
+      rewrite (rrr_build_empty rrr_E sr Hsr). reflexivity.
+    - assert (Hok : rrr_len_ok bits) by (unfold rrr_len_ok, W32 in *; lia).
+      destruct (rrr_build_ok bits sr Hok Hsr) as (d & Hd & _). rewrite Hd. reflexivity.
+  Qed.
+
+  Lemma len_pos_ok bits i : lenN bits < W32 - 64 -> i < lenN bits -> rrr_len_ok bits.
+  Proof. unfold rrr_len_ok, W32. lia. Qed.
+
+  Lemma rrrt_access_law bits i : lenN bits < W32 - 64 -> i < lenN bits ->
+    rrrt_access (rrrt_build sr bits) i = bv_access bits i.
+  Proof.
+    intros H Hi. unfold rrrt_access, rrrt_access_e.
+    rewrite (rrr_access_spec bits sr _ (len_pos_ok bits i H Hi) Hsr (rrrt_built bits H) i Hi). reflexivity.
+  Qed.
+
+  Lemma rrrt_rank_law bits i : lenN bits < W32 - 64 -> i < lenN bits ->
+    rrrt_rank1 (rrrt_build sr bits) i = bv_rank1 bits i.
+  Proof.
+    intros H Hi. unfold rrrt_rank1, rrrt_rank1_e.
+    rewrite (rrr_rank1_spec bits sr _ (len_pos_ok bits i H Hi) Hsr (rrrt_built bits H) i Hi). reflexivity.
+  Qed.
+
+  Lemma rrrt_rank_m1_law bits : lenN bits < W32 - 64 -> rrrt_rank1 (rrrt_build sr bits) (W64 - 1) = 0.
+  Proof. intros _. reflexivity. Qed.
+
+  Lemma sel_len_ok b bits j p : lenN bits < W32 - 64 -> selb b bits j = Some p -> rrr_len_ok bits.
+  Proof.
+    intros H Hs. destruct (selb_spec _ _ _ _ Hs) as (Hp & _). unfold rrr_len_ok, W32 in *. lia.
+  Qed.
+
+  Lemma rrrt_select1_law bits j p : lenN bits < W32 - 64 -> bv_select1 bits j = Some p ->
+    rrrt_select1 (rrrt_build sr bits) j = p.
+  Proof.
+    intros H Hs. destruct (selb_spec _ _ _ _ Hs) as (_ & _ & _ & Hj).
+    unfold rrrt_select1, rrrt_select1_e.
+    rewrite (rrr_select1_spec bits sr _ (sel_len_ok true bits j p H Hs) Hsr (rrrt_built bits H) j Hj), Hs. reflexivity.
+  Qed.
+
+  Lemma rrrt_select0_law bits j p : lenN bits < W32 - 64 -> bv_select0 bits j = Some p ->
+    rrrt_select0 (rrrt_build sr bits) j = p.
+  Proof.
+    intros H Hs. destruct (selb_spec _ _ _ _ Hs) as (_ & _ & _ & Hj).
+    unfold rrrt_select0, rrrt_select0_e.
+    rewrite (rrr_select0_spec bits sr _ (sel_len_ok false bits j p H Hs) Hsr (rrrt_built bits H) j Hsr15 Hj), Hs. reflexivity.
+  Qed.
+
+  Variable is_set : N -> nat -> bool.
+  Variable depth : nat.
+  Variable s : list N.
+  Hypothesis Hlen : lenN s < W32 - 64.
+  Hypothesis Hsep : separable is_set depth 0 s.
+
+  Definition wt_rrr := wt_new rrr (rrrt_build sr) is_set depth s.
+
+  Theorem wt_rrr_access i : i < lenN s -> wt_access rrr rrrt_access rrrt_rank1 wt_rrr i = seq_access s i.
+  Proof.
+    apply (wt_access_correct rrr (rrrt_build sr) rrrt_access rrrt_rank1 rrrt_select1 rrrt_select0 is_set (W32 - 64) rg_maxlen_ok
+             rrrt_access_law rrrt_rank_law rrrt_rank_m1_law rrrt_select1_law rrrt_select0_law depth s i Hlen Hsep).
+  Qed.
+
+  Theorem wt_rrr_rank c i : i < lenN s -> wt_rank rrr rrrt_rank1 is_set wt_rrr c i = seq_rank c s i.
+  Proof.
+    apply (wt_rank_correct rrr (rrrt_build sr) rrrt_access rrrt_rank1 rrrt_select1 rrrt_select0 is_set (W32 - 64) rg_maxlen_ok
+             rrrt_access_law rrrt_rank_law rrrt_rank_m1_law rrrt_select1_law rrrt_select0_law depth s c i Hlen Hsep).
+  Qed.
+
+  Theorem wt_rrr_select c j p : seq_select c s j = Some p ->
+    wt_select rrr rrrt_select1 rrrt_select0 is_set wt_rrr c j = p.
+  Proof.
+    apply (wt_select_correct rrr (rrrt_build sr) rrrt_access rrrt_rank1 rrrt_select1 rrrt_select0 is_set (W32 - 64) rg_maxlen_ok
+             rrrt_access_law rrrt_rank_law rrrt_rank_m1_law rrrt_select1_law rrrt_select0_law depth s c j p Hlen Hsep).
+  Qed.
+End WTOverRRR.
